@@ -107,17 +107,20 @@ Definition transfer_post (e : env) (s s' : state) (i from to : nat) (sh recv : Z
   exists d,
     del s from i = Some d /\ 0 < sh <= d /\
     del s' from i = (if d - sh =? 0 then None else Some (d - sh)) /\
-    del s' to i = Some (dshares s to i + recv) /\
     (forall x j, (x <> from /\ x <> to) \/ j <> i -> del s' x j = del s x j) /\
     (forall j, j <> i -> vals s' j = vals s j) /\
     v_tokens (vals s' i) = v_tokens (vals s i) /\
     v_shares (vals s' i) = v_shares (vals s i) - sh + recv /\
-    v_exists (vals s' i) = true /\ v_exists (vals s i) = true /\
+    v_exists (vals s i) = true /\
     v_status (vals s' i) = v_status (vals s i) /\
     v_jailed (vals s' i) = v_jailed (vals s i) /\
     v_minself (vals s' i) = v_minself (vals s i) /\
     bal s' = bal s /\ ubd s' = ubd s /\ redel s' = redel s /\
-    dbal s' = dbal s /\ sav s' = sav s /\ ern s' = ern s /\ dsup s' = dsup s.
+    dbal s' = dbal s /\ sav s' = sav s /\ ern s' = ern s /\ dsup s' = dsup s /\
+    (* either the shares were worth less than one token and nothing reached the receiver,
+       or the receiver's delegation grew by the shares received *)
+    ((recv = 0 /\ del s' to i = del s to i) \/
+     (del s' to i = Some (dshares s to i + recv) /\ v_exists (vals s' i) = true)).
 
 Lemma transfer_spec e s i from to sh s' recv :
   from <> to ->
@@ -133,7 +136,6 @@ Proof.
   destruct (Nat.eqb from (oper e i) && (v_shares (vals s i) =? 0)) eqn:Ep; [discriminate|].
   destruct (Nat.eqb from (oper e i) && below_min_self (vals s i) (d - sh)) eqn:Eg; [discriminate|].
   destruct (unbond e s from i sh) as [s1 issued| |] eqn:Eu; try discriminate.
-  destruct (v_exists (vals s1 i)) eqn:Ex1; cbn [negb] in H; [|discriminate].
   apply unbond_spec in Eu.
   destruct Eu as (d' & v1 & Ed' & Hle & _ & Hv1 & (v2 & Hrem & Hvals1) & Hdel1 & Hsame1).
   rewrite Ed in Ed'. inversion Ed'; subst d'; clear Ed'.
@@ -143,20 +145,41 @@ Proof.
     subst from. rewrite Nat.eqb_refl in Eg. cbn [andb] in Eg. unfold below_min_self in Eg.
     apply Z.ltb_ge in Eg. lia. }
   subst v1.
-  apply delegate_spec in H. destruct H as (_ & (v' & Hadd & Hv') & Hdel2 & Hsame2).
-  (* the validator was not removed in between *)
-  assert (Ev2 : vals s1 i = v2).
-  { rewrite Hvals1. destruct ((v_shares v2 =? 0) && vstatus_eqb (v_status v2) Unbonded) eqn:Eb; [|reflexivity].
-    rewrite Hvals1 in Ex1. cbn in Ex1. discriminate. }
-  rewrite Ev2 in Hadd.
-  destruct (remove_add_tokens _ _ _ _ _ _ Hrem Hadd) as (Ht & Hs & Hx & Hst & Hj & Hm & _).
   destruct Hsame1 as (Hv1o & Hd1o & Hb1 & Hdb1 & Hsv1 & Her1 & Hds1 & Hr1 & Hu1).
-  destruct Hsame2 as (Hv2o & Hd2o & Hb2 & Hdb2 & Hsv2 & Her2 & Hds2 & Hr2 & Hu2).
-  exists d. rewrite Hv'. repeat split; try congruence; try lia.
-  - rewrite Hd2o by (left; congruence). exact Hdel1.
-  - rewrite Hdel2. unfold dshares. rewrite Hd1o by (left; congruence). reflexivity.
-  - intros x j Hxj. rewrite Hd2o, Hd1o; [reflexivity| |]; destruct Hxj as [[? ?]|?]; auto.
-  - intros j Hj'. rewrite Hv2o, Hv1o by assumption. reflexivity.
+  destruct (Z.eqb_spec issued 0) as [Hi0|Hi0].
+  - (* nothing to re-delegate *)
+    inversion H; subst s' recv; clear H.
+    assert (Hr2 : v_tokens v2 = v_tokens (vals s i) /\ v_shares v2 = v_shares (vals s i) - sh /\
+                  v_status v2 = v_status (vals s i) /\ v_jailed v2 = v_jailed (vals s i) /\ v_minself v2 = v_minself (vals s i)).
+    { unfold remove_del_shares in Hrem.
+      destruct (Z.eqb_spec (v_shares (vals s i) - sh) 0).
+      - injection Hrem as <- Hiss. cbn. repeat split; lia.
+      - destruct (Z.eqb_spec (v_shares (vals s i)) 0); [discriminate|].
+        destruct (Z.ltb_spec (v_tokens (vals s i) - dec_trunc_int (tokens_from_shares (vals s i) sh)) 0); [discriminate|].
+        injection Hrem as <- Hiss. cbn. repeat split; lia. }
+    destruct Hr2 as (Ht2 & Hs2 & Hst2 & Hj2 & Hm2).
+    assert (Hvv : v_tokens (vals s1 i) = v_tokens v2 /\ v_shares (vals s1 i) = v_shares v2 /\ v_status (vals s1 i) = v_status v2 /\
+                  v_jailed (vals s1 i) = v_jailed v2 /\ v_minself (vals s1 i) = v_minself v2).
+    { rewrite Hvals1. destruct ((v_shares v2 =? 0) && vstatus_eqb (v_status v2) Unbonded); cbn; repeat split; reflexivity. }
+    destruct Hvv as (A1 & A2 & A3 & A4 & A5).
+    exists d. repeat split; try congruence; try lia.
+    + intros x j Hxj. apply Hd1o. destruct Hxj as [[? ?]|?]; auto.
+    + exact Hv1o.
+    + left. split; [reflexivity|]. apply Hd1o. left. congruence.
+  - destruct (v_exists (vals s1 i)) eqn:Ex1; cbn [negb] in H; [|discriminate].
+    apply delegate_spec in H. destruct H as (_ & (v' & Hadd & Hv') & Hdel2 & Hsame2).
+    (* the validator was not removed in between *)
+    assert (Ev2 : vals s1 i = v2).
+    { rewrite Hvals1. destruct ((v_shares v2 =? 0) && vstatus_eqb (v_status v2) Unbonded) eqn:Eb; [|reflexivity].
+      rewrite Hvals1 in Ex1. cbn in Ex1. discriminate. }
+    rewrite Ev2 in Hadd.
+    destruct (remove_add_tokens _ _ _ _ _ _ Hrem Hadd) as (Ht & Hs & Hx & Hst & Hj & Hm & _).
+    destruct Hsame2 as (Hv2o & Hd2o & Hb2 & Hdb2 & Hsv2 & Her2 & Hds2 & Hr2 & Hu2).
+    exists d. rewrite Hv'. repeat split; try congruence; try lia.
+    + rewrite Hd2o by (left; congruence). exact Hdel1.
+    + intros x j Hxj. rewrite Hd2o, Hd1o; [reflexivity| |]; destruct Hxj as [[? ?]|?]; auto.
+    + intros j Hj'. rewrite Hv2o, Hv1o by assumption. reflexivity.
+    + right. split; [|congruence]. rewrite Hdel2. unfold dshares. rewrite Hd1o by (left; congruence). reflexivity.
 Qed.
 
 (** * guards *)
@@ -218,7 +241,8 @@ Lemma mint_spec e s a i amt s' minted :
   a <> liq e ->
   mint e s a i amt = Ok s' minted ->
   exists sh recv s1,
-    validate_unbond_amount s a i amt = Some sh /\ minted = dec_trunc_int sh /\
+    validate_unbond_amount s a i amt = Some sh /\
+    minted = Z.min (dec_trunc_int sh) (dec_trunc_int recv) /\ 0 < minted /\
     transfer_post e s s1 i a (liq e) sh recv /\
     vals s' = vals s1 /\ del s' = del s1 /\ bal s' = bal s /\ ubd s' = ubd s /\ redel s' = redel s /\
     sav s' = sav s /\ ern s' = ern s /\
@@ -230,10 +254,11 @@ Proof.
   destruct (amt <=? 0); [discriminate|].
   destruct (validate_unbond_amount s a i amt) as [sh|] eqn:Ev; [|discriminate].
   destruct (transfer_delegation e s i a (liq e) sh) as [s1 recv| |] eqn:Et; try discriminate.
+  destruct (Z.leb_spec (Z.min (dec_trunc_int sh) (dec_trunc_int recv)) 0); [discriminate|].
   inversion H; subst s' minted; clear H.
   pose proof (transfer_spec _ _ _ _ _ _ _ _ Hne Et) as Hp.
-  exists sh, recv, s1. repeat split; auto.
-  all: destruct Hp as (d & _ & _ & _ & _ & _ & _ & _ & _ & _ & _ & _ & _ & _ & Hb & Hu & Hr & Hdb & Hsv & Her & Hds).
+  exists sh, recv, s1. repeat split; auto; try lia.
+  all: destruct Hp as (d & _ & _ & _ & _ & _ & _ & _ & _ & _ & _ & _ & Hb & Hu & Hr & Hdb & Hsv & Her & Hds & _).
   all: cbn [set_dsup set_dbal vals del bal ubd redel sav ern dbal dsup]; try congruence.
   - rewrite upd2_same. now rewrite Hdb.
   - rewrite upd_same. now rewrite Hds.
@@ -573,4 +598,1098 @@ Proof.
   - intros x. destruct (Nat.eq_dec x a) as [->|Hx].
     + rewrite Hba. destruct sub; [specialize (Hsub eq_refl); lia|apply I6].
     + rewrite Hbo by exact Hx. apply I6.
+Qed.
+
+Lemma validate_nonneg e s a i amt sh :
+  Inv e s -> 0 < amt -> validate_unbond_amount s a i amt = Some sh -> 0 <= sh.
+Proof.
+  intros (I1 & _ & I3 & _) Hamt. unfold validate_unbond_amount. intros H.
+  destruct (negb (v_exists (vals s i))); [discriminate|].
+  destruct (del s a i) as [d|] eqn:Ed; [|discriminate].
+  destruct (Z.eqb_spec (v_tokens (vals s i)) 0); [discriminate|].
+  destruct (d <? shares_from_tokens_trunc (vals s i) amt); [discriminate|].
+  pose proof (I1 i) as (HT & HS). pose proof (I3 a i) as Hd. unfold dshares in Hd. rewrite Ed in Hd.
+  assert (0 <= shares_from_tokens (vals s i) amt).
+  { unfold shares_from_tokens, dec_quo_int. apply Z.quot_pos; [nia|lia]. }
+  destruct (d <? shares_from_tokens (vals s i) amt); inversion H; lia.
+Qed.
+
+Lemma transfer_form e s i from to sh s' recv :
+  transfer_delegation e s i from to sh = Ok s' recv ->
+  0 < sh /\ redel s from i = false /\
+  exists s1 issued, unbond e s from i sh = Ok s1 issued /\
+    ((issued = 0 /\ s' = s1 /\ recv = 0) \/ (issued <> 0 /\ delegate s1 to i issued false = Ok s' recv)).
+Proof.
+  unfold transfer_delegation. intros H.
+  destruct (redel s from i); [discriminate|].
+  destruct (Z.ltb_spec sh 0); [discriminate|].
+  destruct (Z.eqb_spec sh 0); [discriminate|].
+  destruct (del s from i); [|discriminate].
+  destruct (negb (v_exists (vals s i))); [discriminate|].
+  destruct (_ && (v_shares (vals s i) =? 0)); [discriminate|].
+  destruct (_ && below_min_self _ _); [discriminate|].
+  destruct (unbond e s from i sh) as [s1 issued| |]; try discriminate.
+  split; [lia|]. split; [reflexivity|]. exists s1, issued. split; [reflexivity|].
+  destruct (Z.eqb_spec issued 0).
+  - left. inversion H. auto.
+  - right. destruct (negb (v_exists (vals s1 i))); [discriminate|]. auto.
+Qed.
+
+Lemma transfer_inv e s i from to sh s' recv :
+  (from < nacc e)%nat -> (to < nacc e)%nat -> Inv e s ->
+  transfer_delegation e s i from to sh = Ok s' recv -> Inv e s' /\ 0 <= recv.
+Proof.
+  intros Hf Ht HI H. apply transfer_form in H. destruct H as (Hsh & _ & s1 & issued & Hu & Hc).
+  assert (Hsh0 : 0 <= sh) by lia.
+  destruct (unbond_inv _ _ _ _ _ _ _ Hf HI Hsh0 Hu) as (HI1 & Hi0).
+  destruct Hc as [(_ & -> & ->)|(_ & Hd)]; [split; [exact HI1|lia]|].
+  exact (delegate_inv _ _ _ _ _ _ _ _ Ht HI1 Hi0 Hd).
+Qed.
+
+(* changes that touch neither validators nor delegations *)
+Lemma inv_of_parts e s s' :
+  Inv e s -> vals s' = vals s -> del s' = del s ->
+  (forall j, dsup s' j = sumN (nacc e) (fun a => held s' a j)) ->
+  (forall a j, 0 <= dbal s' a j /\ 0 <= sav s' a j /\ 0 <= ern s' a j) ->
+  (forall a, 0 <= bal s' a /\ 0 <= ubd s' a) ->
+  Inv e s'.
+Proof.
+  intros (I1 & I2 & I3 & _) Hv Hd H4 H5 H6.
+  assert (Hds : forall a j, dshares s' a j = dshares s a j) by (intros; unfold dshares; now rewrite Hd).
+  split; [|split; [|split; [|split; [|split]]]]; auto.
+  - intros j. rewrite Hv. apply I1.
+  - intros j. rewrite Hv. intros Hex. rewrite (I2 j Hex). apply sumN_ext. intros. now rewrite Hds.
+  - intros a j. rewrite Hds. apply I3.
+Qed.
+
+(* validator records change but keep their shares; nothing else changes *)
+Lemma inv_set_vals e s f :
+  Inv e s ->
+  (forall j, 0 <= v_tokens (f j) /\ v_shares (f j) = v_shares (vals s j) /\
+             (v_exists (f j) = true -> v_exists (vals s j) = true)) ->
+  Inv e (set_vals s f).
+Proof.
+  intros (I1 & I2 & I3 & I4 & I5 & I6) Hf.
+  split; [|split; [|split; [|split; [|split]]]]; cbn [set_vals vals del dsup dbal sav ern bal ubd]; auto.
+  - intros j. destruct (Hf j) as (? & -> & _). split; [assumption|apply I1].
+  - intros j Hex. destruct (Hf j) as (_ & -> & Hx). now apply I2, Hx.
+Qed.
+
+Lemma inv_set_val e s i v' :
+  Inv e s -> 0 <= v_tokens v' -> v_shares v' = v_shares (vals s i) ->
+  (v_exists v' = true -> v_exists (vals s i) = true) -> Inv e (set_val s i v').
+Proof.
+  intros HI Ht Hs Hx. apply inv_set_vals; [exact HI|]. intros j. rewrite upd_eq.
+  destruct (Nat.eqb_spec j i) as [->|]; [auto|]. pose proof HI as (I1 & _). repeat split; auto. apply I1.
+Qed.
+
+Lemma sumN_add n f h : sumN n (fun x => f x + h x) = sumN n f + sumN n h.
+Proof. induction n; cbn [sumN]; lia. Qed.
+
+Lemma sumN_ind n a c : (a < n)%nat -> sumN n (fun x => if Nat.eqb x a then c else 0) = c.
+Proof.
+  intros Ha. rewrite (sumN_change n (fun _ => 0) _ a Ha).
+  - rewrite Nat.eqb_refl. assert (sumN n (fun _ => 0) = 0) by (clear; induction n; cbn [sumN]; lia). lia.
+  - intros x Hx. destruct (Nat.eqb_spec x a); congruence.
+Qed.
+
+Lemma sumN_zero_out n a c : (n <= a)%nat -> sumN n (fun x => if Nat.eqb x a then c else 0) = 0.
+Proof. induction n; intros H; cbn [sumN]; [reflexivity|]. rewrite IHn by lia. destruct (Nat.eqb_spec n a); lia. Qed.
+
+(* the derivative holdings change for validator [i]; [dsup] follows the total *)
+Lemma inv_held e s s' i :
+  Inv e s -> vals s' = vals s -> del s' = del s -> bal s' = bal s -> ubd s' = ubd s ->
+  (forall j, j <> i -> dsup s' j = dsup s j) ->
+  (forall a j, j <> i -> held s' a j = held s a j) ->
+  dsup s' i - dsup s i = sumN (nacc e) (fun a => held s' a i - held s a i) ->
+  (forall a j, 0 <= dbal s' a j /\ 0 <= sav s' a j /\ 0 <= ern s' a j) ->
+  Inv e s'.
+Proof.
+  intros HI Hv Hd Hb Hu Hso Hho Hsum H5. pose proof HI as (_ & _ & _ & I4 & _ & I6).
+  apply (inv_of_parts e s s' HI Hv Hd); auto.
+  - intros j. destruct (Nat.eq_dec j i) as [->|Hj].
+    + assert (sumN (nacc e) (fun a => held s' a i) = sumN (nacc e) (fun a => held s a i) + sumN (nacc e) (fun a => held s' a i - held s a i)).
+      { rewrite <- sumN_add. apply sumN_ext. intros. lia. }
+      rewrite H, <- I4. lia.
+    + rewrite Hso, I4 by exact Hj. apply sumN_ext. intros. symmetry. now apply Hho.
+  - intros a. rewrite Hb, Hu. apply I6.
+Qed.
+
+Lemma inv_dbal_change e s a i x :
+  (a < nacc e)%nat -> Inv e s -> 0 <= dbal s a i + x ->
+  Inv e (set_dsup (set_dbal s a i (dbal s a i + x)) i (dsup s i + x)).
+Proof.
+  intros Ha HI Hx. pose proof HI as (_ & _ & _ & _ & I5 & _).
+  apply (inv_held e s _ i HI); cbn [set_dsup set_dbal vals del bal ubd dsup]; auto.
+  - intros j Hj. now rewrite upd_other.
+  - intros b j Hj. unfold held. cbn [set_dsup set_dbal dbal sav ern]. rewrite upd2_other by (now right). reflexivity.
+  - rewrite upd_same.
+    rewrite (sumN_ext _ _ (fun b => if Nat.eqb b a then x else 0)); [rewrite sumN_ind by exact Ha; lia|].
+    intros b _. unfold held. cbn [set_dsup set_dbal dbal sav ern]. rewrite upd2_eq.
+    destruct (Nat.eqb_spec b a) as [->|]; cbn [andb]; [rewrite Nat.eqb_refl|]; lia.
+  - intros b j. cbn [set_dsup set_dbal dbal sav ern]. rewrite upd2_eq.
+    destruct (Nat.eqb b a && Nat.eqb j i) eqn:E; [|apply I5].
+    apply andb_prop in E. destruct E as (E1 & E2). apply Nat.eqb_eq in E1, E2. subst.
+    pose proof (I5 a i). lia.
+Qed.
+
+Lemma lift_ok {A} (f : A -> output) r s' o : lift f r = Ok s' o -> exists x, r = Ok s' x.
+Proof. destruct r; cbn; intros H; inversion H; eauto. Qed.
+
+Theorem step_inv e s o s' out : env_wf e -> Inv e s -> step e s o = Ok s' out -> Inv e s'.
+Proof.
+  intros Hwf HI H. unfold env_wf in Hwf. pose proof HI as (I1 & I2 & I3 & I4 & I5 & I6).
+  destruct o as [a i amt|a i amt|a src dst amt|i power factor|i|i|m|a i amt|a i amt|a b i amt|p a i amt|p a i amt|votes];
+    cbn [step] in H.
+  - (* Delegate *)
+    destruct (user_ok e a && val_ok e i) eqn:Eo; [|discriminate]. apply andb_prop in Eo. destruct Eo as (Ea & _).
+    unfold user_ok in Ea. apply andb_prop in Ea. destruct Ea as (Ea & _). apply Nat.ltb_lt in Ea.
+    apply lift_ok in H. destruct H as (x & H). unfold msg_delegate in H.
+    destruct (Z.leb_spec amt 0); [discriminate|]. destruct (negb _); [discriminate|].
+    destruct (delegate s a i amt true) as [s1 r| |] eqn:Ed; try discriminate. inversion H; subst s1.
+    assert (Hamt0 : 0 <= amt) by lia.
+    exact (proj1 (delegate_inv _ _ _ _ _ _ _ _ Ea HI Hamt0 Ed)).
+  - (* Undelegate *)
+    destruct (user_ok e a && val_ok e i) eqn:Eo; [|discriminate]. apply andb_prop in Eo. destruct Eo as (Ea & _).
+    unfold user_ok in Ea. apply andb_prop in Ea. destruct Ea as (Ea & _). apply Nat.ltb_lt in Ea.
+    apply lift_ok in H. destruct H as (x & H). unfold undelegate in H.
+    destruct (Z.leb_spec amt 0); [discriminate|].
+    destruct (validate_unbond_amount s a i amt) as [sh|] eqn:Ev; [|discriminate].
+    destruct (unbond e s a i sh) as [s1 issued| |] eqn:Eu; try discriminate. inversion H; subst s'.
+    assert (Hamt0 : 0 < amt) by lia.
+    destruct (unbond_inv _ _ _ _ _ _ _ Ea HI (validate_nonneg _ _ _ _ _ _ HI Hamt0 Ev) Eu) as (HI1 & Hi0).
+    pose proof HI1 as (_ & _ & _ & J4 & J5 & J6).
+    apply (inv_of_parts e s1); auto. intros b. cbn [set_ubd bal ubd]. rewrite upd_eq.
+    split; [apply J6|]. destruct (Nat.eqb b a); [pose proof (J6 a); lia|apply J6].
+  - (* Redelegate *)
+    destruct (user_ok e a && val_ok e src && val_ok e dst) eqn:Eo; [|discriminate].
+    apply andb_prop in Eo. destruct Eo as (Eo & _). apply andb_prop in Eo. destruct Eo as (Ea & _).
+    unfold user_ok in Ea. apply andb_prop in Ea. destruct Ea as (Ea & _). apply Nat.ltb_lt in Ea.
+    apply lift_ok in H. destruct H as (x & H). unfold redelegate in H.
+    destruct (Z.leb_spec amt 0); [discriminate|].
+    destruct (validate_unbond_amount s a src amt) as [sh|] eqn:Ev; [|discriminate].
+    destruct (Nat.eqb src dst); [discriminate|]. destruct (negb _); [discriminate|].
+    destruct (redel s a src); [discriminate|].
+    destruct (unbond e s a src sh) as [s1 issued| |] eqn:Eu; try discriminate.
+    destruct (issued =? 0); [discriminate|].
+    destruct (delegate s1 a dst issued false) as [s2 r| |] eqn:Ed; try discriminate.
+    assert (Hamt0 : 0 < amt) by lia.
+    destruct (unbond_inv _ _ _ _ _ _ _ Ea HI (validate_nonneg _ _ _ _ _ _ HI Hamt0 Ev) Eu) as (HI1 & Hi0).
+    destruct (delegate_inv _ _ _ _ _ _ _ _ Ea HI1 Hi0 Ed) as (HI2 & _).
+    destruct (_ && _); inversion H; subst s'; [exact HI2|].
+    pose proof HI2 as (_ & _ & _ & J4 & J5 & J6). apply (inv_of_parts e s2); auto.
+  - (* Slash *)
+    destruct (val_ok e i); [|discriminate]. apply lift_ok in H. destruct H as (x & H). unfold slash in H.
+    destruct (factor <? 0); [discriminate|].
+    destruct (negb (v_exists (vals s i))); [inversion H; subst; exact HI|].
+    destruct (vstatus_eqb _ _); [discriminate|]. inversion H; subst s'.
+    apply inv_set_val; auto. cbn. pose proof (I1 i). lia.
+  - (* Jail *)
+    destruct (val_ok e i); [|discriminate]. apply lift_ok in H. destruct H as (x & H). unfold jail in H.
+    destruct (negb _); [discriminate|]. destruct (v_jailed _); [discriminate|]. inversion H; subst s'.
+    apply inv_set_val; auto. apply I1.
+  - (* Unjail *)
+    destruct (val_ok e i); [|discriminate]. apply lift_ok in H. destruct H as (x & H). unfold unjail in H.
+    destruct (negb (v_exists _)); [discriminate|]. destruct (negb (v_jailed _)); [discriminate|]. inversion H; subst s'.
+    apply inv_set_val; auto. apply I1.
+  - (* EndBlock *)
+    inversion H; subst s'. unfold end_block.
+    assert (HIv : Inv e (set_vals s (fun i => end_block_val m (vals s i)))).
+    { apply inv_set_vals; [exact HI|]. intros j. unfold end_block_val.
+      pose proof (I1 j) as (HT & _).
+      destruct (v_exists (vals s j)) eqn:Ex; cbn [negb]; [|rewrite Ex; auto].
+      destruct (eligible (vals s j)); [cbn; auto|].
+      destruct (v_status (vals s j)); cbn; auto.
+      destruct m; [destruct (_ =? 0)|]; cbn; auto. }
+    destruct m; [|exact HIv].
+    pose proof HIv as (_ & _ & _ & J4 & J5 & J6). apply (inv_of_parts e _ _ HIv); auto.
+    intros b. cbn [bal ubd set_vals]. pose proof (I6 b). lia.
+  - (* Mint *)
+    destruct (user_ok e a && val_ok e i) eqn:Eo; [|discriminate]. apply andb_prop in Eo. destruct Eo as (Ea & _).
+    unfold user_ok in Ea. apply andb_prop in Ea. destruct Ea as (Ea & _). apply Nat.ltb_lt in Ea.
+    apply lift_ok in H. destruct H as (x & H). unfold mint in H.
+    destruct (Z.leb_spec amt 0); [discriminate|].
+    destruct (validate_unbond_amount s a i amt) as [sh|] eqn:Ev; [|discriminate].
+    destruct (transfer_delegation e s i a (liq e) sh) as [s1 r| |] eqn:Et; try discriminate.
+    destruct (Z.leb_spec (Z.min (dec_trunc_int sh) (dec_trunc_int r)) 0); [discriminate|].
+    inversion H; subst s'.
+    destruct (transfer_inv _ _ _ _ _ _ _ _ Ea Hwf HI Et) as (HI1 & _).
+    apply inv_dbal_change; auto.
+    pose proof HI1 as (_ & _ & _ & _ & J5 & _). pose proof (J5 a i). lia.
+  - (* Burn *)
+    destruct (user_ok e a && val_ok e i) eqn:Eo; [|discriminate]. apply andb_prop in Eo. destruct Eo as (Ea & _).
+    unfold user_ok in Ea. apply andb_prop in Ea. destruct Ea as (Ea & _). apply Nat.ltb_lt in Ea.
+    apply lift_ok in H. destruct H as (x & H). unfold burn in H.
+    destruct (Z.leb_spec amt 0); [discriminate|]. destruct (Z.ltb_spec (dbal s a i) amt); [discriminate|].
+    assert (HI0 : Inv e (set_dsup (set_dbal s a i (dbal s a i - amt)) i (dsup s i - amt))).
+    { replace (dbal s a i - amt) with (dbal s a i + - amt) by lia. replace (dsup s i - amt) with (dsup s i + - amt) by lia.
+      apply inv_dbal_change; auto. lia. }
+    exact (proj1 (transfer_inv _ _ _ _ _ _ _ _ Hwf Ea HI0 H)).
+  - (* SendD *)
+    destruct (user_ok e a && acc_ok e b && val_ok e i) eqn:Eo; [|discriminate].
+    apply andb_prop in Eo. destruct Eo as (Eo & _). apply andb_prop in Eo. destruct Eo as (Ea & Eb).
+    unfold user_ok in Ea. apply andb_prop in Ea. destruct Ea as (Ea & _). apply Nat.ltb_lt in Ea.
+    unfold acc_ok in Eb. apply Nat.ltb_lt in Eb.
+    apply lift_ok in H. destruct H as (x & H). unfold send_deriv in H.
+    destruct (Z.leb_spec amt 0); [discriminate|]. destruct (Z.ltb_spec (dbal s a i) amt); [discriminate|].
+    inversion H; subst s'. clear H.
+    apply (inv_held e s _ i HI); cbn [set_dbal vals del bal ubd dsup]; auto.
+    + intros c j Hj. unfold held. cbn [set_dbal dbal sav ern]. rewrite !upd2_other by (now right). reflexivity.
+    + rewrite (sumN_ext _ _ (fun c => (if Nat.eqb c a then - amt else 0) + (if Nat.eqb c b then amt else 0))).
+      * rewrite sumN_add, !sumN_ind by assumption. lia.
+      * intros c _. unfold held. cbn [set_dbal dbal sav ern]. rewrite !upd2_eq, Nat.eqb_refl, !andb_true_r.
+        destruct (Nat.eqb_spec c b) as [Ecb|Ecb]; destruct (Nat.eqb_spec b a) as [Eba|Eba];
+          destruct (Nat.eqb_spec c a) as [Eca|Eca]; cbn [andb]; subst; try lia; try congruence.
+    + intros c j. cbn [set_dbal dbal sav ern]. rewrite !upd2_eq.
+      pose proof (I5 c j). pose proof (I5 a i). pose proof (I5 b i).
+      destruct (Nat.eqb_spec c b) as [Ecb|Ecb]; destruct (Nat.eqb_spec j i) as [Eji|Eji];
+        destruct (Nat.eqb_spec b a) as [Eba|Eba]; destruct (Nat.eqb_spec c a) as [Eca|Eca];
+        destruct (Nat.eqb_spec i i); cbn [andb]; subst; repeat split; try lia; try congruence.
+  - (* Stash *)
+    destruct (user_ok e a && val_ok e i) eqn:Eo; [|discriminate]. apply andb_prop in Eo. destruct Eo as (Ea & _).
+    unfold user_ok in Ea. apply andb_prop in Ea. destruct Ea as (Ea & _). apply Nat.ltb_lt in Ea.
+    apply lift_ok in H. destruct H as (x & H). unfold stash in H.
+    destruct (Z.leb_spec amt 0); [discriminate|]. destruct (negb _); [discriminate|].
+    destruct (Z.ltb_spec (dbal s a i) amt); [discriminate|].
+    assert (Hz : sumN (nacc e) (fun _ => 0) = 0) by (clear; induction (nacc e); cbn [sumN]; lia).
+    destruct p; inversion H; subst s'; clear H;
+      (apply (inv_held e s _ i HI); cbn [set_dbal set_sav set_ern vals del bal ubd dsup]; auto;
+       [ intros c j Hj; unfold held; cbn [set_dbal set_sav set_ern dbal sav ern]; rewrite !upd2_other by (now right); reflexivity
+       | rewrite (sumN_ext _ _ (fun _ => 0)); [lia|]; intros c _; unfold held; cbn [set_dbal set_sav set_ern dbal sav ern];
+         rewrite !upd2_eq; destruct (Nat.eqb c a && Nat.eqb i i) eqn:E;
+         [apply andb_prop in E; destruct E as (E1 & _); apply Nat.eqb_eq in E1; subst|]; lia
+       | intros c j; cbn [set_dbal set_sav set_ern dbal sav ern]; rewrite !upd2_eq; pose proof (I5 c j); pose proof (I5 a i);
+         destruct (Nat.eqb c a && Nat.eqb j i) eqn:E; [apply andb_prop in E; destruct E as (E1 & E2); apply Nat.eqb_eq in E1, E2; subst|]; lia ]).
+  - (* Unstash *)
+    destruct (user_ok e a && val_ok e i) eqn:Eo; [|discriminate]. apply andb_prop in Eo. destruct Eo as (Ea & _).
+    unfold user_ok in Ea. apply andb_prop in Ea. destruct Ea as (Ea & _). apply Nat.ltb_lt in Ea.
+    apply lift_ok in H. destruct H as (x & H). unfold unstash in H.
+    destruct (Z.leb_spec amt 0); [discriminate|].
+    destruct p.
+    + destruct (Z.leb_spec (sav s a i) 0); [discriminate|]. inversion H; subst s'; clear H.
+      apply (inv_held e s _ i HI); cbn [set_dbal set_sav set_ern vals del bal ubd dsup]; auto.
+      * intros c j Hj; unfold held; cbn [set_dbal set_sav set_ern dbal sav ern]; rewrite !upd2_other by (now right); reflexivity.
+      * rewrite (sumN_ext _ _ (fun _ => 0)); [clear; induction (nacc e); cbn [sumN]; lia|]. intros c _; unfold held; cbn [set_dbal set_sav set_ern dbal sav ern].
+        rewrite !upd2_eq; destruct (Nat.eqb c a && Nat.eqb i i) eqn:E;
+          [apply andb_prop in E; destruct E as (E1 & _); apply Nat.eqb_eq in E1; subst|]; lia.
+      * intros c j; cbn [set_dbal set_sav set_ern dbal sav ern]; rewrite !upd2_eq; pose proof (I5 c j); pose proof (I5 a i).
+        destruct (Nat.eqb c a && Nat.eqb j i) eqn:E; [apply andb_prop in E; destruct E as (E1 & E2); apply Nat.eqb_eq in E1, E2; subst|]; lia.
+    + destruct (Z.eqb_spec (ern s a i) amt); cbn [negb] in H; [|discriminate]. inversion H; subst s'; clear H.
+      apply (inv_held e s _ i HI); cbn [set_dbal set_sav set_ern vals del bal ubd dsup]; auto.
+      * intros c j Hj; unfold held; cbn [set_dbal set_sav set_ern dbal sav ern]; rewrite !upd2_other by (now right); reflexivity.
+      * rewrite (sumN_ext _ _ (fun _ => 0)); [clear; induction (nacc e); cbn [sumN]; lia|]. intros c _; unfold held; cbn [set_dbal set_sav set_ern dbal sav ern].
+        rewrite !upd2_eq; destruct (Nat.eqb c a && Nat.eqb i i) eqn:E;
+          [apply andb_prop in E; destruct E as (E1 & _); apply Nat.eqb_eq in E1; subst|]; lia.
+      * intros c j; cbn [set_dbal set_sav set_ern dbal sav ern]; rewrite !upd2_eq; pose proof (I5 c j); pose proof (I5 a i).
+        destruct (Nat.eqb c a && Nat.eqb j i) eqn:E; [apply andb_prop in E; destruct E as (E1 & E2); apply Nat.eqb_eq in E1, E2; subst|]; lia.
+  - (* Tally *)
+    destruct (tally e s votes); inversion H; subst; exact HI.
+Qed.
+
+Lemma step'_inv e s o : env_wf e -> Inv e s -> Inv e (step' e s o).
+Proof.
+  intros Hwf HI. unfold step'. destruct (step e s o) as [s' out| |] eqn:E; auto. eapply step_inv; eauto.
+Qed.
+
+Theorem run_inv e ops : forall s, env_wf e -> Inv e s -> Inv e (run e s ops).
+Proof.
+  induction ops as [|o r IH]; intros s Hwf HI; [exact HI|]. cbn [run fold_left]. apply IH; auto. now apply step'_inv.
+Qed.
+
+(** * backing holds (with equality) on validators that are never slashed *)
+Definition R1 (e : env) (s : state) (i : nat) : Prop := rate1 s i /\ backed_eq e s i.
+
+Lemma rate1_ext s s' i :
+  vals s' i = vals s i -> (forall a, del s' a i = del s a i) -> rate1 s i -> rate1 s' i.
+Proof.
+  intros Hv Hd (H1 & H2 & H3). unfold rate1. rewrite Hv. repeat split; auto.
+  intros a. rewrite (dshares_same s s' a i (Hd a)). apply H3.
+Qed.
+
+Lemma R1_ext e s s' i :
+  vals s' i = vals s i -> (forall a, del s' a i = del s a i) -> dsup s' i = dsup s i -> R1 e s i -> R1 e s' i.
+Proof.
+  intros Hv Hd Hs (Hr & Hb). split; [eapply rate1_ext; eauto|].
+  unfold backed_eq. rewrite Hs, (dshares_same s s' _ i (Hd _)). exact Hb.
+Qed.
+
+Lemma transfer_rate1 e s j from to sh s' recv i :
+  (from < nacc e)%nat -> Inv e s -> rate1 s i ->
+  (j = i -> exists k, sh = k * PREC /\ 0 <= k) ->
+  transfer_delegation e s j from to sh = Ok s' recv ->
+  from <> to ->
+  rate1 s' i /\ dsup s' = dsup s /\
+  (j = i -> recv = sh /\ dshares s' from i = dshares s from i - sh /\ dshares s' to i = dshares s to i + sh) /\
+  (forall x, ((x <> from /\ x <> to) \/ j <> i) -> dshares s' x i = dshares s x i).
+Proof.
+  intros Hf HI Hr Hk Ht Hne. apply transfer_form in Ht. destruct Ht as (Hsh & _ & s1 & issued & Hu & Hc).
+  destruct (unbond_rate1 _ _ _ _ _ _ _ i Hr Hk Hu) as (Hr1 & Hds1 & Hi1 & Ho1).
+  assert (Hsh0 : 0 <= sh) by lia.
+  destruct (unbond_inv _ _ _ _ _ _ _ Hf HI Hsh0 Hu) as (_ & Hi0).
+  destruct Hc as [(Hz & -> & ->)|(Hnz & Hd)].
+  - (* no token moved: impossible on the rate-one validator itself *)
+    assert (Hji : j <> i) by (intros E; destruct (Hi1 E) as (Hp & _); lia).
+    split; [exact Hr1|]. split; [exact Hds1|]. split; [intros; congruence|].
+    intros x Hx. apply Ho1. now right.
+  - destruct (delegate_rate1 _ _ _ _ _ _ _ i Hr1 Hi0 Hd) as (Hr2 & Hds2 & Hi2 & Ho2).
+    split; [exact Hr2|]. split; [congruence|]. split.
+    + intros ->. destruct (Hi1 eq_refl) as (Hiss & Hdf). destruct (Hi2 eq_refl) as (Hrecv & Hdt).
+      split; [lia|]. split.
+      * rewrite Ho2 by (left; congruence). exact Hdf.
+      * rewrite Hdt, Ho1 by (left; congruence). lia.
+    + intros x Hx. rewrite Ho2, Ho1; [reflexivity| |]; destruct Hx as [[? ?]|?]; auto.
+Qed.
+
+Theorem step_R1 e s o s' out i :
+  env_wf e -> Inv e s -> R1 e s i ->
+  (forall p f, o <> Slash i p f) ->
+  step e s o = Ok s' out -> R1 e s' i.
+Proof.
+  intros Hwf HI (Hr & Hb) Hns H. unfold env_wf in Hwf. unfold backed_eq in Hb.
+  destruct o as [a j amt|a j amt|a src dst amt|j power factor|j|j|m|a j amt|a j amt|a b j amt|p a j amt|p a j amt|votes];
+    cbn [step] in H.
+  - (* Delegate *)
+    destruct (user_ok e a && val_ok e j) eqn:Eo; [|discriminate]. apply andb_prop in Eo. destruct Eo as (Ea & _).
+    unfold user_ok in Ea. apply andb_prop in Ea. destruct Ea as (Ea & Eal). apply Nat.ltb_lt in Ea.
+    apply negb_true_iff, Nat.eqb_neq in Eal.
+    apply lift_ok in H. destruct H as (x & H). unfold msg_delegate in H.
+    destruct (Z.leb_spec amt 0); [discriminate|]. destruct (negb _); [discriminate|].
+    destruct (delegate s a j amt true) as [s1 r| |] eqn:Ed; try discriminate. inversion H; subst s1.
+    assert (Hamt0 : 0 <= amt) by lia.
+    destruct (delegate_rate1 _ _ _ _ _ _ _ i Hr Hamt0 Ed) as (Hr' & Hds & _ & Ho).
+    split; [exact Hr'|]. unfold backed_eq. rewrite Hds, Ho by (left; congruence). exact Hb.
+  - (* Undelegate *)
+    destruct (user_ok e a && val_ok e j) eqn:Eo; [|discriminate]. apply andb_prop in Eo. destruct Eo as (Ea & _).
+    unfold user_ok in Ea. apply andb_prop in Ea. destruct Ea as (Ea & Eal). apply Nat.ltb_lt in Ea.
+    apply negb_true_iff, Nat.eqb_neq in Eal.
+    apply lift_ok in H. destruct H as (x & H). unfold undelegate in H.
+    destruct (Z.leb_spec amt 0); [discriminate|].
+    destruct (validate_unbond_amount s a j amt) as [sh|] eqn:Ev; [|discriminate].
+    destruct (unbond e s a j sh) as [s1 issued| |] eqn:Eu; try discriminate. inversion H; subst s'.
+    assert (Hk : j = i -> exists k, sh = k * PREC /\ 0 <= k).
+    { intros ->. apply (validate_rate1 s a i amt sh Hr); [lia|exact Ev]. }
+    destruct (unbond_rate1 _ _ _ _ _ _ _ i Hr Hk Eu) as (Hr' & Hds & _ & Ho).
+    apply (R1_ext e s1); cbn [set_ubd vals del dsup]; auto.
+    split; [exact Hr'|]. unfold backed_eq. rewrite Hds, Ho by (left; congruence). exact Hb.
+  - (* Redelegate *)
+    destruct (user_ok e a && val_ok e src && val_ok e dst) eqn:Eo; [|discriminate].
+    apply andb_prop in Eo. destruct Eo as (Eo & _). apply andb_prop in Eo. destruct Eo as (Ea & _).
+    unfold user_ok in Ea. apply andb_prop in Ea. destruct Ea as (Ea & Eal). apply Nat.ltb_lt in Ea.
+    apply negb_true_iff, Nat.eqb_neq in Eal.
+    apply lift_ok in H. destruct H as (x & H). unfold redelegate in H.
+    destruct (Z.leb_spec amt 0); [discriminate|].
+    destruct (validate_unbond_amount s a src amt) as [sh|] eqn:Ev; [|discriminate].
+    destruct (Nat.eqb src dst); [discriminate|]. destruct (negb _); [discriminate|].
+    destruct (redel s a src); [discriminate|].
+    destruct (unbond e s a src sh) as [s1 issued| |] eqn:Eu; try discriminate.
+    destruct (issued =? 0); [discriminate|].
+    destruct (delegate s1 a dst issued false) as [s2 r| |] eqn:Ed; try discriminate.
+    assert (Hk : src = i -> exists k, sh = k * PREC /\ 0 <= k).
+    { intros ->. apply (validate_rate1 s a i amt sh Hr); [lia|exact Ev]. }
+    destruct (unbond_rate1 _ _ _ _ _ _ _ i Hr Hk Eu) as (Hr1 & Hds1 & _ & Ho1).
+    assert (Hamt0 : 0 < amt) by lia.
+    destruct (unbond_inv _ _ _ _ _ _ _ Ea HI (validate_nonneg _ _ _ _ _ _ HI Hamt0 Ev) Eu) as (_ & Hi0).
+    destruct (delegate_rate1 _ _ _ _ _ _ _ i Hr1 Hi0 Ed) as (Hr2 & Hds2 & _ & Ho2).
+    assert (HR2 : R1 e s2 i).
+    { split; [exact Hr2|]. unfold backed_eq. rewrite Hds2, Hds1, Ho2, Ho1 by (left; congruence). exact Hb. }
+    destruct (_ && _); inversion H; subst s'; [exact HR2|].
+    apply (R1_ext e s2); cbn [set_redel vals del dsup]; auto.
+  - (* Slash on another validator *)
+    destruct (val_ok e j); [|discriminate]. apply lift_ok in H. destruct H as (x & H). unfold slash in H.
+    destruct (factor <? 0); [discriminate|].
+    destruct (negb (v_exists (vals s j))); [inversion H; subst; split; assumption|].
+    destruct (vstatus_eqb _ _); [discriminate|]. inversion H; subst s'.
+    assert (j <> i) by (intros ->; exact (Hns power factor eq_refl)).
+    apply (R1_ext e s); cbn [set_val set_vals vals del dsup]; auto; [now rewrite upd_other by congruence|split; assumption].
+  - (* Jail *)
+    destruct (val_ok e j); [|discriminate]. apply lift_ok in H. destruct H as (x & H). unfold jail in H.
+    destruct (negb _); [discriminate|]. destruct (v_jailed _); [discriminate|]. inversion H; subst s'.
+    destruct Hr as (Ra & Rb & Rc). split; [|exact Hb].
+    unfold rate1. cbn [set_val set_vals vals]. rewrite upd_eq. destruct (Nat.eqb_spec i j) as [->|]; cbn; repeat split; auto.
+  - (* Unjail *)
+    destruct (val_ok e j); [|discriminate]. apply lift_ok in H. destruct H as (x & H). unfold unjail in H.
+    destruct (negb (v_exists _)); [discriminate|]. destruct (negb (v_jailed _)); [discriminate|]. inversion H; subst s'.
+    destruct Hr as (Ra & Rb & Rc). split; [|exact Hb].
+    unfold rate1. cbn [set_val set_vals vals]. rewrite upd_eq. destruct (Nat.eqb_spec i j) as [->|]; cbn; repeat split; auto.
+  - (* EndBlock *)
+    inversion H; subst s'. destruct Hr as (Ra & Rb & Rc).
+    assert (Hts : v_tokens (end_block_val m (vals s i)) = v_tokens (vals s i) /\ v_shares (end_block_val m (vals s i)) = v_shares (vals s i)).
+    { unfold end_block_val. destruct (negb _); [auto|]. destruct (eligible _); [auto|].
+      destruct (v_status (vals s i)); auto. destruct m; auto. cbn. destruct (_ =? 0); auto. }
+    destruct Hts as (Ht' & Hs').
+    unfold end_block. destruct m; (split; [unfold rate1; cbn [set_vals vals]; rewrite Ht', Hs'; repeat split; auto|exact Hb]).
+  - (* Mint *)
+    destruct (user_ok e a && val_ok e j) eqn:Eo; [|discriminate]. apply andb_prop in Eo. destruct Eo as (Ea & _).
+    unfold user_ok in Ea. apply andb_prop in Ea. destruct Ea as (Ea & Eal). apply Nat.ltb_lt in Ea.
+    apply negb_true_iff, Nat.eqb_neq in Eal.
+    apply lift_ok in H. destruct H as (x & H). unfold mint in H.
+    destruct (Z.leb_spec amt 0); [discriminate|].
+    destruct (validate_unbond_amount s a j amt) as [sh|] eqn:Ev; [|discriminate].
+    destruct (transfer_delegation e s j a (liq e) sh) as [s1 r| |] eqn:Et; try discriminate.
+    destruct (Z.leb_spec (Z.min (dec_trunc_int sh) (dec_trunc_int r)) 0); [discriminate|].
+    inversion H; subst s'. clear H.
+    assert (Hk : j = i -> exists k, sh = k * PREC /\ 0 <= k).
+    { intros ->. apply (validate_rate1 s a i amt sh Hr); [lia|exact Ev]. }
+    destruct (transfer_rate1 _ _ _ _ _ _ _ _ i Ea HI Hr Hk Et Eal) as (Hr1 & Hds1 & Hi1 & Ho1).
+    split.
+    + eapply rate1_ext; [| |exact Hr1]; reflexivity.
+    + unfold backed_eq. cbn [set_dsup set_dbal dsup]. unfold dshares. cbn [set_dsup set_dbal del]. fold (dshares s1 (liq e) i).
+      rewrite upd_eq. destruct (Nat.eqb_spec i j) as [->|Hij].
+      * destruct (Hi1 eq_refl) as (Hrs & _ & Hto). destruct (Hk eq_refl) as (k & -> & Hk0).
+        rewrite Hto, Hds1, Hrs, Z.min_id. unfold dec_trunc_int. rewrite quot_mul_cancel by (unfold PREC; lia). lia.
+      * rewrite Hds1, Ho1 by (right; congruence). exact Hb.
+  - (* Burn *)
+    destruct (user_ok e a && val_ok e j) eqn:Eo; [|discriminate]. apply andb_prop in Eo. destruct Eo as (Ea & _).
+    unfold user_ok in Ea. apply andb_prop in Ea. destruct Ea as (Ea & Eal). apply Nat.ltb_lt in Ea.
+    apply negb_true_iff, Nat.eqb_neq in Eal.
+    apply lift_ok in H. destruct H as (x & H). unfold burn in H.
+    destruct (Z.leb_spec amt 0); [discriminate|]. destruct (Z.ltb_spec (dbal s a j) amt); [discriminate|].
+    set (s0 := set_dsup (set_dbal s a j (dbal s a j - amt)) j (dsup s j - amt)) in *.
+    assert (HI0 : Inv e s0).
+    { subst s0. replace (dbal s a j - amt) with (dbal s a j + - amt) by lia. replace (dsup s j - amt) with (dsup s j + - amt) by lia.
+      apply inv_dbal_change; auto. lia. }
+    assert (Hr0 : rate1 s0 i) by (eapply rate1_ext; [| |exact Hr]; reflexivity).
+    assert (Hk : j = i -> exists k, dec_of_int amt = k * PREC /\ 0 <= k) by (intros _; exists amt; unfold dec_of_int; split; lia).
+    assert (Hne : liq e <> a) by congruence.
+    destruct (transfer_rate1 _ _ _ _ _ _ _ _ i Hwf HI0 Hr0 Hk H Hne) as (Hr1 & Hds1 & Hi1 & Ho1).
+    split; [exact Hr1|]. unfold backed_eq. rewrite Hds1. subst s0. cbn [set_dsup set_dbal dsup]. rewrite upd_eq.
+    destruct (Nat.eqb_spec i j) as [->|Hij].
+    + destruct (Hi1 eq_refl) as (_ & Hfrom & _). rewrite Hfrom. unfold dshares at 1. cbn [set_dsup set_dbal del].
+      fold (dshares s (liq e) j). unfold dec_of_int. lia.
+    + rewrite Ho1 by (right; congruence). unfold dshares at 1. cbn [set_dsup set_dbal del]. exact Hb.
+  - (* SendD *)
+    destruct (_ && _); [|discriminate]. apply lift_ok in H. destruct H as (x & H). unfold send_deriv in H.
+    destruct (amt <=? 0); [discriminate|]. destruct (_ <? _); [discriminate|]. inversion H; subst s'.
+    apply (R1_ext e s); auto. split; assumption.
+  - (* Stash *)
+    destruct (_ && _); [|discriminate]. apply lift_ok in H. destruct H as (x & H). unfold stash in H.
+    destruct (amt <=? 0); [discriminate|]. destruct (negb _); [discriminate|]. destruct (_ <? _); [discriminate|].
+    destruct p; inversion H; subst s'; (apply (R1_ext e s); auto; split; assumption).
+  - (* Unstash *)
+    destruct (_ && _); [|discriminate]. apply lift_ok in H. destruct H as (x & H). unfold unstash in H.
+    destruct (amt <=? 0); [discriminate|].
+    destruct p; [destruct (_ <=? 0)|destruct (negb _)]; try discriminate;
+      inversion H; subst s'; (apply (R1_ext e s); auto; split; assumption).
+  - (* Tally *)
+    destruct (tally e s votes); inversion H; subst; split; assumption.
+Qed.
+
+Definition no_slash_of (i : nat) (o : op) : Prop := forall p f, o <> Slash i p f.
+
+Theorem run_R1 e i ops : forall s, env_wf e -> Inv e s -> R1 e s i -> Forall (no_slash_of i) ops -> R1 e (run e s ops) i.
+Proof.
+  induction ops as [|o r IH]; intros s Hwf HI HR Hns; [exact HR|].
+  inversion Hns as [|? ? Ho Hr']; subst. cbn [run fold_left]. apply IH; auto.
+  - now apply step'_inv.
+  - unfold step'. destruct (step e s o) as [s' out| |] eqn:E; auto. eapply step_R1; eauto.
+Qed.
+
+Lemma R1_backed e s i : R1 e s i -> dsup s i * PREC <= dshares s (liq e) i.
+Proof. intros (_ & Hb). unfold backed_eq in Hb. lia. Qed.
+
+(** * how far the module's new shares can fall short of the shares unbonded *)
+Lemma transfer_shortfall v sh v1 issued v2 recv :
+  0 <= v_tokens v -> 0 < v_shares v -> 0 <= sh <= v_shares v ->
+  remove_del_shares v sh = Some (v1, issued) -> v_shares v1 <> 0 ->
+  add_tokens_from_del v1 issued = Some (v2, recv) ->
+  0 < v_tokens v1 /\ (sh - recv) * v_tokens v1 < v_shares v + v_tokens v1.
+Proof.
+  intros HT HS Hsh Hrem Hne Hadd.
+  unfold remove_del_shares in Hrem.
+  destruct (Z.eqb_spec (v_shares v - sh) 0) as [E0|E0].
+  { injection Hrem as <- <-. cbn in Hne. contradiction. }
+  destruct (Z.eqb_spec (v_shares v) 0); [lia|].
+  destruct (Z.ltb_spec (v_tokens v - dec_trunc_int (tokens_from_shares v sh)) 0); [discriminate|].
+  injection Hrem as <- <-. clear Hne.
+  unfold add_tokens_from_del in Hadd. cbn [set_ts v_shares v_tokens] in Hadd.
+  destruct (Z.eqb_spec (v_shares v - sh) 0); [contradiction|].
+  destruct (Z.eqb_spec (v_tokens v - dec_trunc_int (tokens_from_shares v sh)) 0) as [|HT'0]; [discriminate|].
+  injection Hadd as _ <-. cbn [set_ts v_tokens v_shares].
+  unfold shares_from_tokens, dec_quo_int. cbn [set_ts v_tokens v_shares].
+  set (T := v_tokens v) in *. set (S := v_shares v) in *.
+  unfold tokens_from_shares, dec_trunc_int in *. fold T S in H, HT'0 |- *.
+  set (x := sh * T) in *.
+  assert (Hx : 0 <= x) by (subst x; nia).
+  pose proof (dec_quo_bounds x S Hx HS) as Hq. cbv zeta in Hq.
+  pose proof (dec_quo_nonneg x S Hx HS) as Hq0.
+  set (tq := dec_quo x S) in *.
+  set (q := x * PREC * PREC / S) in *.
+  assert (Hqs : q * S <= x * PREC * PREC < q * S + S).
+  { subst q. pose proof (Z.div_mod (x * PREC * PREC) S ltac:(lia)). pose proof (Z.mod_pos_bound (x * PREC * PREC) S HS). nia. }
+  rewrite Z.quot_div_nonneg in * by (unfold PREC; lia).
+  set (issued := tq / PREC) in *.
+  assert (Hiss : issued * PREC <= tq < issued * PREC + PREC).
+  { subst issued. pose proof (Z.div_mod tq PREC ltac:(unfold PREC; lia)). pose proof (Z.mod_pos_bound tq PREC PREC_pos). nia. }
+  assert (Hi0 : 0 <= issued) by (subst issued; apply Z.div_pos; [lia|apply PREC_pos]).
+  set (T' := T - issued) in *.
+  assert (HT' : 0 < T') by lia.
+  split; [exact HT'|].
+  assert (HS' : 0 < S - sh) by lia.
+  rewrite Z.quot_div_nonneg by nia.
+  set (recv := (S - sh) * issued / T').
+  assert (Hrecv : recv * T' <= (S - sh) * issued < recv * T' + T').
+  { subst recv. pose proof (Z.div_mod ((S - sh) * issued) T' ltac:(lia)). pose proof (Z.mod_pos_bound ((S - sh) * issued) T' HT'). nia. }
+  (* S * issued > sh * T - S *)
+  assert (Hkey : x - S < S * issued).
+  { assert (P2 : 2 < PREC) by reflexivity.
+    assert (A1 : 2 * x * PREC * PREC - 2 * S < 2 * q * S) by lia.
+    assert (A2 : S * (2 * q - PREC) <= 2 * S * tq * PREC) by nia.
+    assert (A3 : S * tq - S * PREC + S <= S * issued * PREC) by nia.
+    (* combine: 2 P (S issued P) >= 2P (S tq - S P + S) and 2 P S tq >= 2 q S - P S > 2 x P^2 - 2 S - P S *)
+    assert (A4 : 2 * x * PREC * PREC - 2 * S - PREC * S < 2 * S * tq * PREC) by lia.
+    assert (A5 : 2 * x * PREC * PREC - 2 * S - PREC * S - 2 * S * PREC * PREC + 2 * S * PREC < 2 * S * issued * PREC * PREC) by nia.
+    (* divide by 2 P^2: x - S + (S/P - S/(2P) - S/P^2) < S issued, and the bracket is >= 0 *)
+    assert (A6 : 0 <= 2 * S * PREC - 2 * S - PREC * S) by (unfold PREC in *; lia).
+    assert (A7 : (x - S) * (2 * PREC * PREC) < (S * issued) * (2 * PREC * PREC)) by lia.
+    unfold PREC in A7. lia. }
+  subst x T'. nia.
+Qed.
+
+(* the same bound for a successful MintDerivative, on the state.  The units minted never exceed
+   the shares the module gained; and unless the mint unbonds every share of the validator, the
+   shares the user gave up that did not arrive satisfy (sh - gained) * T' < S + T', where S are the
+   validator's shares before and T' > 0 the tokens left in it between unbond and re-delegation *)
+Theorem mint_shortfall e s a i amt s' minted :
+  env_wf e -> Inv e s -> (a < nacc e)%nat -> a <> liq e ->
+  mint e s a i amt = Ok s' minted ->
+  let gained := dshares s' (liq e) i - dshares s (liq e) i in
+  exists sh, validate_unbond_amount s a i amt = Some sh /\ 0 < minted /\ minted * PREC <= sh /\ minted * PREC <= gained /\
+    (v_shares (vals s i) - sh <> 0 ->
+     exists T', 0 < T' <= v_tokens (vals s i) /\ (sh - gained) * T' < v_shares (vals s i) + T').
+Proof.
+  intros Hwf HI Ha Hne Hm gained. subst gained. pose proof HI as (I1 & I2 & I3 & _).
+  unfold mint in Hm. destruct (Z.leb_spec amt 0); [discriminate|].
+  destruct (validate_unbond_amount s a i amt) as [sh|] eqn:Ev; [|discriminate].
+  destruct (transfer_delegation e s i a (liq e) sh) as [s1 r| |] eqn:Et; try discriminate.
+  destruct (Z.leb_spec (Z.min (dec_trunc_int sh) (dec_trunc_int r)) 0) as [|Hmin]; [discriminate|].
+  injection Hm as <- <-.
+  assert (Hamt0 : 0 < amt) by lia.
+  pose proof (validate_nonneg _ _ _ _ _ _ HI Hamt0 Ev) as Hsh0.
+  assert (Htr : forall z, 0 <= z -> dec_trunc_int z * PREC <= z).
+  { intros z Hz. unfold dec_trunc_int. rewrite Z.quot_div_nonneg by (unfold PREC; lia).
+    pose proof (Z.div_mod z PREC ltac:(unfold PREC; lia)). pose proof (Z.mod_pos_bound z PREC PREC_pos). lia. }
+  destruct (transfer_inv _ _ _ _ _ _ _ _ Ha Hwf HI Et) as (_ & Hr0).
+  (* the module's delegation grew by r *)
+  pose proof (transfer_spec _ _ _ _ _ _ _ _ Hne Et) as (d0 & _ & _ & _ & _ & _ & _ & _ & _ & _ & _ & _ & _ & _ & _ & _ & _ & _ & _ & Hcase).
+  assert (Hliq : dshares (set_dsup (set_dbal s1 a i (dbal s1 a i + Z.min (dec_trunc_int sh) (dec_trunc_int r))) i
+                                   (dsup s1 i + Z.min (dec_trunc_int sh) (dec_trunc_int r))) (liq e) i
+                 = dshares s (liq e) i + r).
+  { unfold dshares at 1. cbn [set_dsup set_dbal del].
+    destruct Hcase as [(-> & Hd)|(Hd & _)]; rewrite Hd; [unfold dshares; destruct (del s (liq e) i); lia|reflexivity]. }
+  rewrite Hliq.
+  exists sh. split; [reflexivity|]. split; [lia|].
+  pose proof (Htr sh Hsh0). pose proof (Htr r Hr0).
+  split; [unfold PREC in *; lia|]. split; [unfold PREC in *; lia|].
+  intros Hnz.
+  destruct (validate_unbond_le _ _ _ _ _ Ev) as (d & Ed & Hle & Hex & _).
+  apply transfer_form in Et. destruct Et as (Hshp & _ & s0 & issued & Hu & Hc).
+  destruct Hc as [(_ & _ & ->)|(Hinz & Hd)].
+  { exfalso. unfold dec_trunc_int in Hmin. cbn in Hmin. lia. }
+  apply unbond_spec in Hu.
+  destruct Hu as (d' & v1 & Ed' & _ & _ & Hv1 & (v2 & Hrem & Hvals) & _ & Hsame).
+  assert (Ht1 : v_tokens v1 = v_tokens (vals s i) /\ v_shares v1 = v_shares (vals s i)).
+  { destruct Hv1 as [->|(_ & -> & _)]; split; reflexivity. }
+  destruct Ht1 as (Ht1 & Hs1).
+  assert (HdS : d <= v_shares (vals s i)).
+  { rewrite (I2 i Hex). replace d with (dshares s a i) by (unfold dshares; now rewrite Ed).
+    apply (sumN_ge1 (nacc e) (fun x => dshares s x i)); [intros; apply I3|exact Ha]. }
+  apply delegate_spec_gen in Hd. destruct Hd as ((v' & Hadd & _) & Hdel & _).
+  assert (Hs2 : v_shares v2 = v_shares (vals s i) - sh).
+  { unfold remove_del_shares in Hrem. rewrite Hs1 in Hrem.
+    destruct (Z.eqb_spec (v_shares (vals s i) - sh) 0); [injection Hrem as <- _; reflexivity|].
+    destruct (Z.eqb_spec (v_shares (vals s i)) 0); [discriminate|].
+    destruct (_ <? 0); [discriminate|]. injection Hrem as <- _. reflexivity. }
+  assert (Ev2 : vals s0 i = v2).
+  { rewrite Hvals. destruct (Z.eqb_spec (v_shares v2) 0); [lia|reflexivity]. }
+  rewrite Ev2 in Hadd.
+  pose proof (I1 i) as (HT & HS).
+  destruct (transfer_shortfall v1 sh v2 issued v' r) as (HT' & Hb); try rewrite Ht1; try rewrite Hs1; auto; try lia.
+  exists (v_tokens v2). split.
+  - split; [exact HT'|].
+    unfold remove_del_shares in Hrem. rewrite Hs1, Ht1 in Hrem.
+    destruct (Z.eqb_spec (v_shares (vals s i) - sh) 0); [injection Hrem as <- _; cbn; lia|].
+    destruct (Z.eqb_spec (v_shares (vals s i)) 0); [discriminate|].
+    destruct (Z.ltb_spec (v_tokens (vals s i) - dec_trunc_int (tokens_from_shares v1 sh)) 0); [discriminate|].
+    injection Hrem as <- _. cbn.
+    assert (0 <= dec_trunc_int (tokens_from_shares v1 sh)) by (apply tfs_nonneg; lia). lia.
+  - rewrite Hs1 in Hb. replace (dshares s (liq e) i + r - dshares s (liq e) i) with r by lia. exact Hb.
+Qed.
+
+(** * the tally *)
+Lemma fold_left_ext {A B} (f g : A -> B -> A) l : (forall x y, f x y = g x y) -> forall a, fold_left f l a = fold_left g l a.
+Proof. intros H. induction l as [|b r IH]; intros a; cbn; [reflexivity|]. now rewrite H, IH. Qed.
+
+(* the tally reads derivative holdings only through wallet + savings + earn *)
+Lemma tally_ext e s s' votes :
+  (forall i, vals s' i = vals s i) -> (forall a i, del s' a i = del s a i) ->
+  (forall a i, held s' a i = held s a i) ->
+  tally e s' votes = tally e s votes.
+Proof.
+  intros Hv Hd Hh.
+  assert (Hc : forall i, curr s' i = curr s i) by (intros; unfold curr; now rewrite Hv).
+  assert (E1 : forall a opts t, tally_dels e s' a opts t = tally_dels e s a opts t).
+  { intros. unfold tally_dels. apply fold_left_ext. intros. now rewrite Hd, Hc, Hv. }
+  assert (E2 : forall a opts t, tally_bkava e s' a opts t = tally_bkava e s a opts t).
+  { intros. unfold tally_bkava. apply fold_left_ext. intros. now rewrite Hh, Hc, Hv. }
+  assert (E3 : forall t, tally_votes e s' votes t = tally_votes e s votes t).
+  { intros. unfold tally_votes. apply fold_left_ext. intros. now rewrite E1, E2. }
+  assert (E4 : forall t, tally_validators e s' votes t = tally_validators e s votes t).
+  { intros. unfold tally_validators. apply fold_left_ext. intros. now rewrite Hc, Hv. }
+  assert (E5 : total_bonded e s' = total_bonded e s).
+  { unfold total_bonded. apply sumN_ext. intros. now rewrite Hv. }
+  unfold tally, tally_acc. now rewrite E3, E4, E5.
+Qed.
+
+Lemma stash_tally e s p a i amt s' votes :
+  stash s p a i amt = Ok s' tt -> tally e s' votes = tally e s votes.
+Proof.
+  unfold stash. intros H. destruct (amt <=? 0); [discriminate|]. destruct (negb _); [discriminate|].
+  destruct (_ <? _); [discriminate|].
+  destruct p; injection H as <-; apply tally_ext; intros; try reflexivity;
+    unfold held; cbn [set_dbal set_sav set_ern dbal sav ern]; rewrite !upd2_eq;
+    destruct (Nat.eqb a0 a && Nat.eqb i0 i) eqn:E; try lia;
+    apply andb_prop in E; destruct E as (E1 & E2); apply Nat.eqb_eq in E1, E2; subst; lia.
+Qed.
+
+Lemma unstash_tally e s p a i amt s' votes :
+  unstash s p a i amt = Ok s' tt -> tally e s' votes = tally e s votes.
+Proof.
+  unfold unstash. intros H. destruct (amt <=? 0); [discriminate|].
+  destruct p; [destruct (_ <=? 0)|destruct (Z.eqb_spec (ern s a i) amt); cbn [negb] in H]; try discriminate;
+    injection H as <-; apply tally_ext; intros; try reflexivity;
+    unfold held; cbn [set_dbal set_sav set_ern dbal sav ern]; rewrite !upd2_eq;
+    destruct (Nat.eqb a0 a && Nat.eqb i0 i) eqn:E; try lia;
+    apply andb_prop in E; destruct E as (E1 & E2); apply Nat.eqb_eq in E1, E2; subst; lia.
+Qed.
+
+(* a derivative position carries (up to one token of truncation) the power a delegation of
+   the same number of shares carries *)
+Lemma derivative_power_close v h :
+  0 <= h -> 0 <= v_tokens v -> 0 < v_shares v ->
+  0 <= delegation_power v (dec_of_int h) - dec_of_int (derivative_value v h) <= PREC.
+Proof.
+  intros Hh HT HS. unfold delegation_power, derivative_value, tokens_from_shares_trunc, dec_quo, dec_quo_trunc, dec_of_int, dec_trunc_int.
+  set (x := h * PREC * v_tokens v).
+  assert (Hx : 0 <= x) by (subst x; unfold PREC; nia).
+  set (q := Z.quot (x * PREC * PREC) (v_shares v)).
+  assert (Hq : 0 <= q) by (subst q; apply Z.quot_pos; [unfold PREC; nia|lia]).
+  pose proof (chop_round_bounds q) as B1. pose proof (chop_trunc_bounds q Hq) as B2.
+  pose proof (chop_round_nonneg q Hq) as B3.
+  set (cr := chop_round q) in *. set (ct := chop_trunc q) in *.
+  assert (0 <= ct) by (subst ct; unfold chop_trunc; apply Z.quot_pos; [lia|unfold PREC; lia]).
+  rewrite Z.quot_div_nonneg by (unfold PREC; lia).
+  pose proof (Z.div_mod ct PREC ltac:(unfold PREC; lia)). pose proof (Z.mod_pos_bound ct PREC PREC_pos).
+  assert (ct <= cr <= ct + 1) by (unfold PREC in *; lia).
+  lia.
+Qed.
+
+(** * the boolean invariant evaluated during the correspondence run follows from [Inv] *)
+Lemma inv_b_of_Inv e s : Inv e s -> inv_b e s = true.
+Proof.
+  intros (I1 & I2 & I3 & I4 & I5 & I6). unfold inv_b. apply andb_true_intro. split.
+  - apply forallb_forall. intros i _. pose proof (I1 i) as (? & ?).
+    repeat (apply andb_true_intro; split); try (apply Z.leb_le; lia).
+    + destruct (v_exists (vals s i)) eqn:Ex; cbn [negb orb]; [|reflexivity]. apply Z.eqb_eq. now apply I2.
+    + apply Z.eqb_eq. apply I4.
+  - apply forallb_forall. intros a _. pose proof (I6 a) as (? & ?).
+    repeat (apply andb_true_intro; split); try (apply Z.leb_le; lia).
+    apply forallb_forall. intros i _. pose proof (I5 a i) as (? & ? & ?). pose proof (I3 a i).
+    repeat (apply andb_true_intro; split); apply Z.leb_le; lia.
+Qed.
+
+(** * value owned by a user: delegation shares plus derivative units (one unit = one share) *)
+Definition owned (s : state) (a i : nat) : Z := dshares s a i + held s a i * PREC.
+Definition staked_value (s : state) (a i : nat) : Z := dec_trunc_int (tokens_from_shares (vals s i) (owned s a i)).
+
+Lemma val_eq v w :
+  v_exists v = v_exists w -> v_tokens v = v_tokens w -> v_shares v = v_shares w -> v_status v = v_status w ->
+  v_jailed v = v_jailed w -> v_minself v = v_minself w -> v = w.
+Proof. destruct v, w; cbn; intros; subst; reflexivity. Qed.
+
+Lemma mint_rate1_value e s a i amt s' minted :
+  env_wf e -> Inv e s -> rate1 s i -> (a < nacc e)%nat -> a <> liq e ->
+  mint e s a i amt = Ok s' minted ->
+  owned s' a i = owned s a i /\ vals s' i = vals s i /\ minted * PREC = dshares s a i - dshares s' a i /\
+  dshares s' (liq e) i = dshares s (liq e) i + minted * PREC.
+Proof.
+  intros Hwf HI Hr Ha Hne Hm. unfold mint in Hm.
+  destruct (Z.leb_spec amt 0); [discriminate|].
+  destruct (validate_unbond_amount s a i amt) as [sh|] eqn:Ev; [|discriminate].
+  destruct (transfer_delegation e s i a (liq e) sh) as [s1 r| |] eqn:Et; try discriminate.
+  destruct (Z.leb_spec (Z.min (dec_trunc_int sh) (dec_trunc_int r)) 0); [discriminate|].
+  injection Hm as <- <-.
+  assert (Hamt0 : 0 < amt) by lia.
+  destruct (validate_rate1 s a i amt sh Hr Hamt0 Ev) as (k & -> & Hk0).
+  assert (Hk : i = i -> exists k0, k * PREC = k0 * PREC /\ 0 <= k0) by (intros _; eauto).
+  destruct (transfer_rate1 _ _ _ _ _ _ _ _ i Ha HI Hr Hk Et Hne) as (Hr1 & Hds1 & Hi1 & _).
+  destruct (Hi1 eq_refl) as (Hrecv & Hfrom & Hto). subst r.
+  pose proof (transfer_spec _ _ _ _ _ _ _ _ Hne Et) as (d & _ & _ & _ & _ & _ & Ht & Hs & Hx0 & Hst & Hj & Hms & _ & _ & _ & Hdb & Hsv & Her & _ & Hcase).
+  assert (Hx : v_exists (vals s1 i) = true).
+  { destruct Hcase as [(Hz & _)|(_ & Hx)]; [|exact Hx]. exfalso.
+    apply transfer_form in Et. destruct Et as (? & _). lia. }
+  assert (Htr : dec_trunc_int (k * PREC) = k) by (unfold dec_trunc_int; apply quot_mul_cancel; unfold PREC; lia).
+  rewrite Htr, Z.min_id in *.
+  assert (Hd' : forall x, dshares (set_dsup (set_dbal s1 a i (dbal s1 a i + k)) i (dsup s1 i + k)) x i = dshares s1 x i) by reflexivity.
+  repeat split.
+  - unfold owned, held. rewrite Hd'. cbn [set_dsup set_dbal dbal sav ern]. rewrite upd2_same, Hfrom, Hdb, Hsv, Her. lia.
+  - cbn [set_dsup set_dbal vals]. apply val_eq; try congruence; lia.
+  - rewrite Hd', Hfrom. lia.
+  - rewrite Hd', Hto. lia.
+Qed.
+
+Lemma transfer_sender_not_empty e s i from to sh s' recv :
+  from <> to -> transfer_delegation e s i from to sh = Ok s' recv -> del s' from i <> Some 0.
+Proof.
+  intros Hne Ht. destruct (transfer_spec _ _ _ _ _ _ _ _ Hne Ht) as (d & _ & _ & Hd & _).
+  rewrite Hd. destruct (Z.eqb_spec (d - sh) 0); congruence.
+Qed.
+
+Lemma transfer_receiver_positive_rate1 e s i from to sh s' recv :
+  (from < nacc e)%nat -> Inv e s -> rate1 s i -> (exists k, sh = k * PREC /\ 0 <= k) -> from <> to ->
+  transfer_delegation e s i from to sh = Ok s' recv -> recv = sh /\ 0 < recv.
+Proof.
+  intros Hf HI Hr Hk Hne Ht.
+  destruct (transfer_rate1 _ _ _ _ _ _ _ _ i Hf HI Hr (fun _ => Hk) Ht Hne) as (_ & _ & Hi & _).
+  destruct (Hi eq_refl) as (-> & _). apply transfer_form in Ht. destruct Ht as (? & _). split; [reflexivity|lia].
+Qed.
+
+(** * backing: the derivative supply never exceeds the module account's delegation shares *)
+Definition backed_all (e : env) (s : state) : Prop := forall i, dsup s i * PREC <= dshares s (liq e) i.
+
+Lemma trunc_mul_le z : 0 <= z -> dec_trunc_int z * PREC <= z.
+Proof.
+  intros Hz. unfold dec_trunc_int. rewrite Z.quot_div_nonneg by (unfold PREC; lia).
+  pose proof (Z.div_mod z PREC ltac:(unfold PREC; lia)). pose proof (Z.mod_pos_bound z PREC PREC_pos). lia.
+Qed.
+
+Lemma trunc_pos_nonneg z : 0 < dec_trunc_int z -> 0 <= z.
+Proof.
+  unfold dec_trunc_int. intros H. destruct (Z.le_gt_cases 0 z); [assumption|]. exfalso.
+  replace z with (- (- z)) in H by lia. rewrite Z.quot_opp_l in H by (unfold PREC; lia).
+  assert (0 <= Z.quot (- z) PREC) by (apply Z.quot_pos; unfold PREC; lia). lia.
+Qed.
+
+Lemma backed_ext e s s' :
+  (forall i, dsup s' i = dsup s i) -> (forall i, del s' (liq e) i = del s (liq e) i) -> backed_all e s -> backed_all e s'.
+Proof. intros Hs Hd H i. rewrite Hs, (dshares_same s s' _ i (Hd i)). apply H. Qed.
+
+Theorem step_backed e s o s' out : backed_all e s -> step e s o = Ok s' out -> backed_all e s'.
+Proof.
+  intros HB H.
+  destruct o as [a j amt|a j amt|a src dst amt|j power factor|j|j|m|a j amt|a j amt|a b j amt|p a j amt|p a j amt|votes];
+    cbn [step] in H.
+  - (* Delegate *)
+    destruct (user_ok e a && val_ok e j) eqn:Eo; [|discriminate]. apply andb_prop in Eo. destruct Eo as (Ea & _).
+    unfold user_ok in Ea. apply andb_prop in Ea. destruct Ea as (_ & Eal). apply negb_true_iff, Nat.eqb_neq in Eal.
+    apply lift_ok in H. destruct H as (x & H). unfold msg_delegate in H.
+    destruct (amt <=? 0); [discriminate|]. destruct (negb _); [discriminate|].
+    destruct (delegate s a j amt true) as [s1 r| |] eqn:Ed; try discriminate. inversion H; subst s1.
+    apply delegate_spec_gen in Ed. destruct Ed as (_ & _ & (_ & Hdo & _ & _ & _ & Hds & _) & _).
+    apply (backed_ext e s); [intros i0; now rewrite Hds|intros i0; apply Hdo; left; congruence|exact HB].
+  - (* Undelegate *)
+    destruct (user_ok e a && val_ok e j) eqn:Eo; [|discriminate]. apply andb_prop in Eo. destruct Eo as (Ea & _).
+    unfold user_ok in Ea. apply andb_prop in Ea. destruct Ea as (_ & Eal). apply negb_true_iff, Nat.eqb_neq in Eal.
+    apply lift_ok in H. destruct H as (x & H). unfold undelegate in H.
+    destruct (amt <=? 0); [discriminate|].
+    destruct (validate_unbond_amount s a j amt) as [sh|]; [|discriminate].
+    destruct (unbond e s a j sh) as [s1 issued| |] eqn:Eu; try discriminate. inversion H; subst s'.
+    apply unbond_spec in Eu. destruct Eu as (_ & _ & _ & _ & _ & _ & _ & _ & (_ & Hdo & _ & _ & _ & _ & Hds & _)).
+    apply (backed_ext e s); [intros i0; cbn [set_ubd dsup]; now rewrite Hds|intros i0; cbn [set_ubd del]; apply Hdo; left; congruence|exact HB].
+  - (* Redelegate *)
+    destruct (user_ok e a && val_ok e src && val_ok e dst) eqn:Eo; [|discriminate].
+    apply andb_prop in Eo. destruct Eo as (Eo & _). apply andb_prop in Eo. destruct Eo as (Ea & _).
+    unfold user_ok in Ea. apply andb_prop in Ea. destruct Ea as (_ & Eal). apply negb_true_iff, Nat.eqb_neq in Eal.
+    apply lift_ok in H. destruct H as (x & H). unfold redelegate in H.
+    destruct (amt <=? 0); [discriminate|].
+    destruct (validate_unbond_amount s a src amt) as [sh|]; [|discriminate].
+    destruct (Nat.eqb src dst); [discriminate|]. destruct (negb _); [discriminate|].
+    destruct (redel s a src); [discriminate|].
+    destruct (unbond e s a src sh) as [s1 issued| |] eqn:Eu; try discriminate.
+    destruct (issued =? 0); [discriminate|].
+    destruct (delegate s1 a dst issued false) as [s2 r| |] eqn:Ed; try discriminate.
+    apply unbond_spec in Eu. destruct Eu as (_ & _ & _ & _ & _ & _ & _ & _ & (_ & Hdo1 & _ & _ & _ & _ & Hds1 & _)).
+    apply delegate_spec_gen in Ed. destruct Ed as (_ & _ & (_ & Hdo2 & _ & _ & _ & Hds2 & _) & _).
+    assert (HB2 : backed_all e s2).
+    { apply (backed_ext e s); [intros i0; now rewrite Hds2, Hds1|intros i0; rewrite Hdo2, Hdo1; auto; left; congruence|exact HB]. }
+    destruct (_ && _); inversion H; subst s'; [exact HB2|]. apply (backed_ext e s2); auto.
+  - (* Slash *)
+    destruct (val_ok e j); [|discriminate]. apply lift_ok in H. destruct H as (x & H). unfold slash in H.
+    destruct (factor <? 0); [discriminate|].
+    destruct (negb (v_exists (vals s j))); [inversion H; subst; exact HB|].
+    destruct (vstatus_eqb _ _); [discriminate|]. inversion H; subst s'. apply (backed_ext e s); auto.
+  - destruct (val_ok e j); [|discriminate]. apply lift_ok in H. destruct H as (x & H). unfold jail in H.
+    destruct (negb _); [discriminate|]. destruct (v_jailed _); [discriminate|]. inversion H; subst s'. apply (backed_ext e s); auto.
+  - destruct (val_ok e j); [|discriminate]. apply lift_ok in H. destruct H as (x & H). unfold unjail in H.
+    destruct (negb (v_exists _)); [discriminate|]. destruct (negb (v_jailed _)); [discriminate|]. inversion H; subst s'. apply (backed_ext e s); auto.
+  - inversion H; subst s'. unfold end_block. destruct m; apply (backed_ext e s); auto.
+  - (* Mint: at most the shares received are minted *)
+    destruct (user_ok e a && val_ok e j) eqn:Eo; [|discriminate]. apply andb_prop in Eo. destruct Eo as (Ea & _).
+    unfold user_ok in Ea. apply andb_prop in Ea. destruct Ea as (_ & Eal). apply negb_true_iff, Nat.eqb_neq in Eal.
+    apply lift_ok in H. destruct H as (x & H).
+    destruct (mint_spec _ _ _ _ _ _ _ Eal H) as (sh & recv & s1 & _ & Hmin & Hpos & Hp & _ & Hdel & _ & _ & _ & _ & _ & _ & Hds & _ & Hdso).
+    destruct Hp as (d & _ & _ & _ & Hdo & _ & _ & _ & _ & _ & _ & _ & _ & _ & _ & _ & _ & _ & _ & Hcase).
+    intros i. unfold dshares. rewrite Hdel. fold (dshares s1 (liq e) i).
+    destruct (Nat.eq_dec i j) as [->|Hij].
+    + rewrite Hds.
+      assert (Hr : 0 < dec_trunc_int recv) by lia.
+      pose proof (trunc_pos_nonneg recv Hr) as Hr0. pose proof (trunc_mul_le recv Hr0) as Hle.
+      assert (Hliq : dshares s1 (liq e) j = dshares s (liq e) j + recv).
+      { destruct Hcase as [(Hz & _)|(Hd & _)]; [exfalso; subst recv; cbn in Hr; lia|].
+        unfold dshares at 1. now rewrite Hd. }
+      rewrite Hliq. pose proof (HB j). unfold PREC in *. lia.
+    + rewrite Hdso by exact Hij. unfold dshares. rewrite Hdo by (right; exact Hij). apply HB.
+  - (* Burn: exactly the units burned leave the module's delegation *)
+    destruct (user_ok e a && val_ok e j) eqn:Eo; [|discriminate]. apply andb_prop in Eo. destruct Eo as (Ea & _).
+    unfold user_ok in Ea. apply andb_prop in Ea. destruct Ea as (_ & Eal). apply negb_true_iff, Nat.eqb_neq in Eal.
+    apply lift_ok in H. destruct H as (x & H).
+    destruct (burn_spec _ _ _ _ _ _ _ Eal H) as (Hamt & Hp). cbv zeta in Hp.
+    destruct Hp as (d & Hd & Hsh & Hfrom & Hdo & _ & _ & _ & _ & _ & _ & _ & _ & _ & _ & _ & _ & _ & Hds & _).
+    intros i. rewrite Hds. cbn [set_dsup set_dbal dsup]. rewrite upd_eq.
+    destruct (Nat.eqb_spec i j) as [->|Hij].
+    + unfold dshares. rewrite Hfrom. cbn [set_dsup set_dbal del] in Hd.
+      pose proof (HB j) as Hb. unfold dshares in Hb. rewrite Hd in Hb. unfold dec_of_int in *.
+      destruct (Z.eqb_spec (d - amt * PREC) 0); lia.
+    + unfold dshares. rewrite Hdo by (right; exact Hij). cbn [set_dsup set_dbal del]. apply HB.
+  - destruct (_ && _); [|discriminate]. apply lift_ok in H. destruct H as (x & H). unfold send_deriv in H.
+    destruct (amt <=? 0); [discriminate|]. destruct (_ <? _); [discriminate|]. inversion H; subst s'. apply (backed_ext e s); auto.
+  - destruct (_ && _); [|discriminate]. apply lift_ok in H. destruct H as (x & H). unfold stash in H.
+    destruct (amt <=? 0); [discriminate|]. destruct (negb _); [discriminate|]. destruct (_ <? _); [discriminate|].
+    destruct p; inversion H; subst s'; apply (backed_ext e s); auto.
+  - destruct (_ && _); [|discriminate]. apply lift_ok in H. destruct H as (x & H). unfold unstash in H.
+    destruct (amt <=? 0); [discriminate|].
+    destruct p; [destruct (_ <=? 0)|destruct (negb _)]; try discriminate; inversion H; subst s'; apply (backed_ext e s); auto.
+  - destruct (tally e s votes); inversion H; subst; exact HB.
+Qed.
+
+Theorem run_backed e ops : forall s, backed_all e s -> backed_all e (run e s ops).
+Proof.
+  induction ops as [|o r IH]; intros s HB; [exact HB|]. cbn [run fold_left]. apply IH.
+  unfold step'. destruct (step e s o) as [s' out| |] eqn:E; auto. eapply step_backed; eauto.
+Qed.
+
+(** * never an empty delegation *)
+Lemma issued_lower v sh :
+  0 <= v_tokens v -> 0 < v_shares v -> 0 <= sh ->
+  let issued := dec_trunc_int (tokens_from_shares v sh) in
+  0 <= issued /\ sh * v_tokens v - v_shares v < v_shares v * issued.
+Proof.
+  intros HT HS Hsh. cbv zeta. unfold tokens_from_shares, dec_trunc_int.
+  set (T := v_tokens v) in *. set (S := v_shares v) in *. set (x := sh * T).
+  assert (Hx : 0 <= x) by (subst x; nia).
+  pose proof (dec_quo_bounds x S Hx HS) as Hq. cbv zeta in Hq.
+  pose proof (dec_quo_nonneg x S Hx HS) as Hq0.
+  set (tq := dec_quo x S) in *.
+  set (q := x * PREC * PREC / S) in *.
+  assert (Hqs : q * S <= x * PREC * PREC < q * S + S).
+  { subst q. pose proof (Z.div_mod (x * PREC * PREC) S ltac:(lia)). pose proof (Z.mod_pos_bound (x * PREC * PREC) S HS). nia. }
+  rewrite Z.quot_div_nonneg by (unfold PREC; lia).
+  set (issued := tq / PREC).
+  assert (Hiss : issued * PREC <= tq < issued * PREC + PREC).
+  { subst issued. pose proof (Z.div_mod tq PREC ltac:(unfold PREC; lia)). pose proof (Z.mod_pos_bound tq PREC PREC_pos). nia. }
+  split; [subst issued; apply Z.div_pos; [lia|apply PREC_pos]|].
+  assert (P2 : 2 < PREC) by reflexivity.
+  assert (A1 : 2 * x * PREC * PREC - 2 * S < 2 * q * S) by lia.
+  assert (A2 : S * (2 * q - PREC) <= 2 * S * tq * PREC) by nia.
+  assert (A3 : S * tq - S * PREC + S <= S * issued * PREC) by nia.
+  assert (A4 : 2 * x * PREC * PREC - 2 * S - PREC * S < 2 * S * tq * PREC) by lia.
+  assert (A5 : 2 * x * PREC * PREC - 2 * S - PREC * S - 2 * S * PREC * PREC + 2 * S * PREC < 2 * S * issued * PREC * PREC) by nia.
+  assert (A6 : 0 <= 2 * S * PREC - 2 * S - PREC * S) by (unfold PREC in *; lia).
+  assert (A7 : (x - S) * (2 * PREC * PREC) < (S * issued) * (2 * PREC * PREC)) by lia.
+  unfold PREC in A7. lia.
+Qed.
+
+(* a share worth less than 5*10^17 tokens: with it, a transfer that moves at least one token
+   delivers a positive number of shares *)
+Lemma recv_positive v sh v1 issued v2 recv :
+  0 <= v_tokens v -> 0 < v_shares v -> 2 * v_tokens v <= v_shares v -> 0 <= sh <= v_shares v ->
+  remove_del_shares v sh = Some (v1, issued) -> 0 < issued ->
+  add_tokens_from_del v1 issued = Some (v2, recv) -> 0 < recv.
+Proof.
+  intros HT HS H2 Hsh Hrem Hi Hadd.
+  unfold remove_del_shares in Hrem.
+  destruct (Z.eqb_spec (v_shares v - sh) 0) as [E0|E0].
+  { injection Hrem as <- <-. unfold add_tokens_from_del in Hadd. cbn [set_ts v_shares v_tokens] in Hadd.
+    rewrite E0 in Hadd. cbn in Hadd. injection Hadd as _ <-. unfold dec_of_int, PREC. lia. }
+  destruct (Z.eqb_spec (v_shares v) 0); [lia|].
+  destruct (Z.ltb_spec (v_tokens v - dec_trunc_int (tokens_from_shares v sh)) 0) as [|HT'ge]; [discriminate|].
+  injection Hrem as <- <-.
+  unfold add_tokens_from_del in Hadd. cbn [set_ts v_shares v_tokens] in Hadd.
+  destruct (Z.eqb_spec (v_shares v - sh) 0); [contradiction|].
+  destruct (Z.eqb_spec (v_tokens v - dec_trunc_int (tokens_from_shares v sh)) 0) as [|HT'0]; [discriminate|].
+  injection Hadd as _ <-. unfold shares_from_tokens, dec_quo_int. cbn [set_ts v_tokens v_shares].
+  destruct (issued_lower v sh HT HS ltac:(lia)) as (Hi0 & Hkey). cbv zeta in Hi0, Hkey.
+  set (issued := dec_trunc_int (tokens_from_shares v sh)) in *.
+  set (T := v_tokens v) in *. set (S := v_shares v) in *.
+  assert (HS' : 1 <= S - sh) by lia.
+  assert (HT' : 0 < T - issued) by lia.
+  (* S * T' < T * S' + S, and 2 T <= S: 2 T' <= S' + 1 <= 2 S' *)
+  assert (B1 : S * (T - issued) < T * (S - sh) + S) by nia.
+  assert (B2 : 2 * S * (T - issued) < S * (S - sh) + 2 * S) by nia.
+  assert (B3 : 2 * (T - issued) < (S - sh) + 2) by nia.
+  assert (B4 : T - issued <= S - sh) by lia.
+  rewrite Z.quot_div_nonneg by nia.
+  assert ((T - issued) * 1 <= (S - sh) * issued) by nia.
+  apply Z.div_str_pos. lia.
+Qed.
+
+Theorem transfer_no_empty_delegation e s i from to sh s' recv :
+  from <> to -> (from < nacc e)%nat -> Inv e s ->
+  2 * v_tokens (vals s i) <= v_shares (vals s i) ->
+  transfer_delegation e s i from to sh = Ok s' recv ->
+  del s' from i <> Some 0 /\ (del s' to i = Some 0 -> del s to i = Some 0) /\
+  forall x j, (x <> from /\ x <> to) \/ j <> i -> del s' x j = del s x j.
+Proof.
+  intros Hne Hf HI H2 Ht. pose proof HI as (I1 & I2 & I3 & _).
+  pose proof (transfer_spec _ _ _ _ _ _ _ _ Hne Ht) as (d & Hd & Hsh & Hfrom & Hdo & _ & _ & _ & Hex & _ & _ & _ & _ & _ & _ & _ & _ & _ & _ & Hcase).
+  split; [rewrite Hfrom; destruct (Z.eqb_spec (d - sh) 0); congruence|]. split; [|exact Hdo].
+  destruct Hcase as [(_ & ->)|(Hto & _)]; [auto|].
+  intros Hz. rewrite Hto in Hz. injection Hz as Hz.
+  (* the received shares are positive *)
+  apply transfer_form in Ht. destruct Ht as (Hshp & _ & s1 & issued & Hu & Hc).
+  assert (Hsh0 : 0 <= sh) by lia.
+  destruct (unbond_inv _ _ _ _ _ _ _ Hf HI Hsh0 Hu) as (_ & Hi0).
+  destruct Hc as [(_ & -> & ->)|(Hinz & Hdg)].
+  { (* nothing moved: the receiver's record is the old one *)
+    apply unbond_spec in Hu. destruct Hu as (_ & _ & _ & _ & _ & _ & _ & _ & (_ & Hdo1 & _)).
+    rewrite Hdo1 in Hto by (left; congruence). rewrite Hto. f_equal. lia. }
+  exfalso.
+  apply unbond_spec in Hu. destruct Hu as (d' & v1 & Ed' & _ & _ & Hv1 & (v2 & Hrem & Hvals) & _ & _).
+  assert (Ht1 : v_tokens v1 = v_tokens (vals s i) /\ v_shares v1 = v_shares (vals s i)).
+  { destruct Hv1 as [->|(_ & -> & _)]; split; reflexivity. }
+  destruct Ht1 as (Ht1 & Hs1).
+  apply delegate_spec_gen in Hdg. destruct Hdg as ((v' & Hadd & _) & _).
+  assert (HdS : d <= v_shares (vals s i)).
+  { rewrite (I2 i Hex). replace d with (dshares s from i) by (unfold dshares; now rewrite Hd).
+    apply (sumN_ge1 (nacc e) (fun x => dshares s x i)); [intros; apply I3|exact Hf]. }
+  pose proof (I1 i) as (HT & HS).
+  assert (Ev2 : vals s1 i = v2 \/ v_shares v2 = 0).
+  { rewrite Hvals. destruct (Z.eqb_spec (v_shares v2) 0); [now right|now left]. }
+  assert (Hadd' : add_tokens_from_del v2 issued = Some (v', recv) \/
+                  (v_shares v2 = 0 /\ recv = dec_of_int issued)).
+  { destruct Ev2 as [E|E]; [left; now rewrite <- E|right]. split; [exact E|].
+    unfold add_tokens_from_del in Hadd.
+    assert (Es : v_shares (vals s1 i) = 0) by (rewrite Hvals; destruct (_ && _); cbn; exact E).
+    rewrite Es in Hadd. cbn in Hadd. injection Hadd as _ <-. reflexivity. }
+  pose proof (I3 to i).
+  destruct Hadd' as [Ha|(_ & ->)].
+  - assert (0 < recv); [|lia].
+    eapply (recv_positive v1 sh v2 issued v' recv); rewrite ?Ht1, ?Hs1; eauto; lia.
+  - unfold dec_of_int, PREC in *. lia.
+Qed.
+
+(** * the tally's arithmetic for one bonded validator *)
+Lemma delegation_power_bound v d :
+  0 <= d -> 0 <= v_tokens v -> 0 < v_shares v ->
+  0 <= delegation_power v d /\ 2 * v_shares v * delegation_power v d <= 2 * PREC * v_tokens v * d + v_shares v.
+Proof.
+  intros Hd HT HS. unfold delegation_power.
+  assert (Hx : 0 <= d * v_tokens v) by nia.
+  pose proof (dec_quo_bounds _ _ Hx HS) as B. cbv zeta in B.
+  pose proof (dec_quo_nonneg _ _ Hx HS) as B0.
+  set (q := d * v_tokens v * PREC * PREC / v_shares v) in *.
+  assert (q * v_shares v <= d * v_tokens v * PREC * PREC).
+  { subst q. pose proof (Z.div_mod (d * v_tokens v * PREC * PREC) (v_shares v) ltac:(lia)).
+    pose proof (Z.mod_pos_bound (d * v_tokens v * PREC * PREC) (v_shares v) HS). nia. }
+  split; [exact B0|].
+  set (dq := dec_quo (d * v_tokens v) (v_shares v)) in *.
+  assert (2 * dq * PREC * v_shares v <= (2 * q + PREC) * v_shares v) by nia.
+  assert (PREC * (2 * v_shares v * dq) <= PREC * (2 * PREC * v_tokens v * d + v_shares v)) by nia.
+  unfold PREC in *. nia.
+Qed.
+
+Lemma derivative_power_bound v h :
+  0 <= h -> 0 <= v_tokens v -> 0 < v_shares v ->
+  0 <= dec_of_int (derivative_value v h) /\
+  v_shares v * dec_of_int (derivative_value v h) <= PREC * v_tokens v * dec_of_int h.
+Proof.
+  intros Hh HT HS. unfold derivative_value, tokens_from_shares_trunc, dec_quo_trunc, dec_of_int, dec_trunc_int, chop_trunc.
+  set (x := h * PREC * v_tokens v).
+  assert (Hx : 0 <= x) by (subst x; unfold PREC; nia).
+  assert (Hn : 0 <= x * PREC * PREC) by (unfold PREC; nia).
+  rewrite (Z.quot_div_nonneg (x * PREC * PREC) (v_shares v)) by lia.
+  set (q := x * PREC * PREC / v_shares v).
+  assert (Hq : 0 <= q /\ q * v_shares v <= x * PREC * PREC).
+  { subst q. split; [apply Z.div_pos; lia|].
+    pose proof (Z.div_mod (x * PREC * PREC) (v_shares v) ltac:(lia)).
+    pose proof (Z.mod_pos_bound (x * PREC * PREC) (v_shares v) HS). nia. }
+  rewrite (Z.quot_div_nonneg q PREC) by (unfold PREC; lia).
+  set (c := q / PREC).
+  assert (Hc : 0 <= c /\ c * PREC <= q).
+  { subst c. split; [apply Z.div_pos; [lia|unfold PREC; lia]|].
+    pose proof (Z.div_mod q PREC ltac:(unfold PREC; lia)). pose proof (Z.mod_pos_bound q PREC PREC_pos). nia. }
+  rewrite (Z.quot_div_nonneg c PREC) by (unfold PREC; lia).
+  set (t := c / PREC).
+  assert (Ht : 0 <= t /\ t * PREC <= c).
+  { subst t. split; [apply Z.div_pos; [lia|unfold PREC; lia]|].
+    pose proof (Z.div_mod c PREC ltac:(unfold PREC; lia)). pose proof (Z.mod_pos_bound c PREC PREC_pos). nia. }
+  split; [destruct Ht; unfold PREC in *; lia|].
+  destruct Hq as (Hq0 & Hq1). destruct Hc as (Hc0 & Hc1). destruct Ht as (Ht0 & Ht1).
+  assert (E1 : t * PREC * PREC <= q) by (unfold PREC in *; lia).
+  assert (E2 : t * PREC * PREC * v_shares v <= q * v_shares v) by (apply Z.mul_le_mono_nonneg_r; lia).
+  assert (E3 : PREC * PREC * (v_shares v * (t * PREC)) <= PREC * PREC * (PREC * x)) by (unfold PREC in *; lia).
+  assert (E4 : v_shares v * (t * PREC) <= PREC * x) by (unfold PREC in *; lia).
+  subst x. unfold PREC in *. lia.
+Qed.
+
+Lemma validator_power_bound v ded :
+  0 <= ded <= v_shares v -> 0 <= v_tokens v -> 0 < v_shares v ->
+  0 <= validator_power v ded /\
+  2 * v_shares v * validator_power v ded <= 2 * PREC * v_tokens v * (v_shares v - ded) + v_shares v.
+Proof.
+  intros Hd HT HS. unfold validator_power.
+  apply (delegation_power_bound v (v_shares v - ded)); lia.
+Qed.
+
+(* all the power counted on account of one bonded validator: the voting delegators' shares [ds],
+   the voting derivative holders' units [hs], and, if the validator voted, its remaining shares *)
+Definition counted_for (v : validator) (ds hs : list Z) (validator_voted : bool) : Z :=
+  zsum (map (delegation_power v) ds) + zsum (map (fun h => dec_of_int (derivative_value v h)) hs) +
+  (if validator_voted then validator_power v (zsum ds + zsum (map dec_of_int hs)) else 0).
+
+Lemma zsum_dels v ds : (forall d, In d ds -> 0 <= d) -> 0 <= v_tokens v -> 0 < v_shares v ->
+  0 <= zsum ds /\
+  2 * v_shares v * zsum (map (delegation_power v) ds) <= 2 * PREC * v_tokens v * zsum ds + Z.of_nat (length ds) * v_shares v.
+Proof.
+  intros Hd HT HS. induction ds as [|d r IH]; [cbn; lia|].
+  destruct IH as (I0 & I1); [intros; apply Hd; now right|].
+  pose proof (delegation_power_bound v d (Hd d (or_introl eq_refl)) HT HS) as (_ & B).
+  pose proof (Hd d (or_introl eq_refl)).
+  cbn [map zsum fold_right length]. fold (zsum r). fold (zsum (map (delegation_power v) r)).
+  rewrite Nat2Z.inj_succ. split; [lia|]. rewrite !Z.mul_add_distr_l. unfold Z.succ. rewrite Z.mul_add_distr_r. lia.
+Qed.
+
+Lemma zsum_bkava v hs : (forall h, In h hs -> 0 <= h) -> 0 <= v_tokens v -> 0 < v_shares v ->
+  0 <= zsum (map dec_of_int hs) /\
+  v_shares v * zsum (map (fun h => dec_of_int (derivative_value v h)) hs) <= PREC * v_tokens v * zsum (map dec_of_int hs).
+Proof.
+  intros Hh HT HS. induction hs as [|h r IH]; [cbn; lia|].
+  destruct IH as (I0 & I1); [intros; apply Hh; now right|].
+  pose proof (derivative_power_bound v h (Hh h (or_introl eq_refl)) HT HS) as (_ & B).
+  pose proof (Hh h (or_introl eq_refl)).
+  cbn [map zsum fold_right]. fold (zsum (map dec_of_int r)). fold (zsum (map (fun h => dec_of_int (derivative_value v h)) r)).
+  split; [unfold dec_of_int at 1; unfold PREC; lia|]. rewrite !Z.mul_add_distr_l. lia.
+Qed.
+
+Theorem counted_for_bound v ds hs voted :
+  (forall d, In d ds -> 0 <= d) -> (forall h, In h hs -> 0 <= h) ->
+  0 <= v_tokens v -> 0 < v_shares v ->
+  zsum ds + zsum (map dec_of_int hs) <= v_shares v ->
+  2 * counted_for v ds hs voted <= 2 * dec_of_int (v_tokens v) + Z.of_nat (length ds) + 1.
+Proof.
+  intros Hd Hh HT HS HD.
+  destruct (zsum_dels v ds Hd HT HS) as (D0 & D1). destruct (zsum_bkava v hs Hh HT HS) as (H0 & H1).
+  unfold counted_for, dec_of_int at 2.
+  set (A := zsum (map (delegation_power v) ds)) in *.
+  set (B := zsum (map (fun h => dec_of_int (derivative_value v h)) hs)) in *.
+  set (sd := zsum ds) in *. set (sh := zsum (map dec_of_int hs)) in *.
+  set (n := Z.of_nat (length ds)) in *. assert (0 <= n) by (subst n; lia).
+  set (S := v_shares v) in *. set (T := v_tokens v) in *.
+  destruct voted.
+  - destruct (validator_power_bound v (sd + sh) ltac:(lia) HT HS) as (_ & V). fold S T in V.
+    set (C := validator_power v (sd + sh)) in *.
+    assert (E : S * (2 * (A + B + C)) <= S * (2 * (T * PREC) + n + 1)) by nia.
+    apply (Z.mul_le_mono_pos_l _ _ S HS). unfold dec_of_int. exact E.
+  - assert (G : PREC * T * (sd + sh) <= PREC * T * S) by (apply Z.mul_le_mono_nonneg_l; [unfold PREC; nia|lia]).
+    assert (E : S * (2 * (A + B + 0)) <= S * (2 * (T * PREC) + n + 1)) by nia.
+    apply (Z.mul_le_mono_pos_l _ _ S HS). unfold dec_of_int. exact E.
 Qed.
